@@ -9,9 +9,11 @@ package asm
 //@ # irIntConst hands the text of the literal, unchanged, to constant.NewIntFromString: every accepted
 //@ # notation denotes the value the C09 contract of NewIntFromString gives it, for the type that was written.
 //@ func (*generator).irIntConst
-//@   props C09
+//@   props C09 C07
 //@   requires old != nil && types.I1 != nil && types.I1.BitSize == 1
 //@   requires constant.True != nil && constant.False != nil && constant.True.X != nil && constant.False.X != nil && bigval(constant.True.X) == 1 && bigval(constant.False.X) == 0
+//@   ensures typeis(t, "*types.IntType") && cast(t, "*types.IntType") != nil && constant.islit(old.IntLit().Text()) ==> result1 == nil
+//@   ensures typeis(t, "*types.IntType") && cast(t, "*types.IntType") != nil && cast(t, "*types.IntType").BitSize >= 1 && cast(t, "*types.IntType").BitSize <= 16777215 && result1 == nil ==> result0 != nil && result0.X != nil && bigval(result0.X) == constant.litbig(cast(t, "*types.IntType").BitSize, old.IntLit().Text())
 //@   behaviour notint:
 //@     requires !typeis(t, "*types.IntType")
 //@     ensures  result1 != nil && result0 == nil
@@ -40,6 +42,65 @@ package asm
 //@   behaviour malformed:
 //@     requires typeis(t, "*types.IntType") && cast(t, "*types.IntType") != nil && !isnum(old.IntLit().Text(), 10) && old.IntLit().Text() != "true" && old.IntLit().Text() != "false" && !(len(old.IntLit().Text()) >= 3 && (old.IntLit().Text()[0:3] == "u0x" || old.IntLit().Text()[0:3] == "s0x"))
 //@     ensures  result1 != nil && result0 == nil
+
+//@ # ---------------------------------------------------------------- C07 / C06 (parser-side getelementptr types) ---
+//@ # What a written constant index contributes to the type walk (the parser's copy of getIndex, stated over the
+//@ # syntax tree): integer, boolean and zeroinitializer constants and splat vectors of integers have a value --
+//@ # the int64 the literal denotes as an i64 (constant.litbig) --, a vector constant has its number of elements.
+//@ func boolLit
+//@   props C07
+//@   pure
+//@   requires old.Text() == "true" || old.Text() == "false"
+//@   ensures result == (old.Text() == "true")
+//@ macro aiv(c *ast.IntConst) int64 = int64of(constant.litbig(64, c.IntLit().Text()))
+//@ macro aelemInt(v *ast.VectorConst, j int) bool = typeis(v.Elems()[j].Val(), "*ast.IntConst")
+//@ macro aelemVal(v *ast.VectorConst, j int) int64 = aiv(cast(v.Elems()[j].Val(), "*ast.IntConst"))
+//@ macro asplat(v *ast.VectorConst) bool = forall(j, 0, len(v.Elems()), aelemInt(v, j) && aelemVal(v, j) == aelemVal(v, 0))
+//@ macro acHas(c ast.Constant) bool = typeis(c, "*ast.IntConst") || typeis(c, "*ast.BoolConst") || typeis(c, "*ast.ZeroInitializerConst") || (typeis(c, "*ast.VectorConst") && len(cast(c, "*ast.VectorConst").Elems()) > 0 && asplat(cast(c, "*ast.VectorConst")))
+//@ macro acVal(c ast.Constant) int64 = ite(typeis(c, "*ast.IntConst"), aiv(cast(c, "*ast.IntConst")), ite(typeis(c, "*ast.BoolConst"), ite(boolLit(cast(c, "*ast.BoolConst").BoolLit()), 1, 0), ite(typeis(c, "*ast.VectorConst") && len(cast(c, "*ast.VectorConst").Elems()) > 0 && asplat(cast(c, "*ast.VectorConst")), aelemVal(cast(c, "*ast.VectorConst"), 0), 0)))
+//@ macro acLen(c ast.Constant) uint64 = ite(typeis(c, "*ast.VectorConst"), len(cast(c, "*ast.VectorConst").Elems()), 0)
+//@ # well-formed constant index: integer literals are literals of a non-boolean integer type, booleans are true/false
+//@ macro acwf(c ast.Constant) bool = (typeis(c, "*ast.IntConst") ==> cast(c, "*ast.IntConst") != nil && constant.islit(cast(c, "*ast.IntConst").IntLit().Text())) && (typeis(c, "*ast.BoolConst") ==> cast(c, "*ast.BoolConst") != nil && (cast(c, "*ast.BoolConst").BoolLit().Text() == "true" || cast(c, "*ast.BoolConst").BoolLit().Text() == "false")) && (typeis(c, "*ast.VectorConst") ==> cast(c, "*ast.VectorConst") != nil && forall(j, 0, len(cast(c, "*ast.VectorConst").Elems()), aelemInt(cast(c, "*ast.VectorConst"), j) ==> cast(cast(c, "*ast.VectorConst").Elems()[j].Val(), "*ast.IntConst") != nil && constant.islit(cast(cast(c, "*ast.VectorConst").Elems()[j].Val(), "*ast.IntConst").IntLit().Text())))
+//@ func (*generator).getIndex
+//@   props C07 C06
+//@   requires gen != nil && acwf(index) && types.I64 != nil && types.I64.BitSize == 64 && types.I1 != nil && types.I1.BitSize == 1
+//@   requires constant.True != nil && constant.False != nil && constant.True.X != nil && constant.False.X != nil && bigval(constant.True.X) == 1 && bigval(constant.False.X) == 0
+//@   assigns nothing
+//@   ensures result.HasVal == acHas(index) && result.Val == acVal(index) && result.VectorLen == acLen(index) && !result.Scalable
+//@   loop 0: invariant 0 <= range_i && range_i <= len(elems) && forall(j, 0, range_i, aelemInt(index, j) && aelemVal(index, j) == aelemVal(index, 0))
+//@   loop 0: invariant range_i > 0 ==> val == aelemVal(index, 0)
+
+//@ # A written gep operand `T v` contributes: a constant field index (aiHas/aiVal, when v is a constant with a value)
+//@ # and the vector length / scalability of its written type T (LLVM's rule; a vector constant has a vector type).
+//@ macro atvT(tv ast.TypeValue) types.Type = tyOf(tv.Typ())
+//@ macro aIsC(tv ast.TypeValue) bool = typeis(tv.Val(), "ast.Constant")
+//@ macro aiHas(tv ast.TypeValue) bool = aIsC(tv) && acHas(tv.Val())
+//@ macro aiVal(tv ast.TypeValue) int64 = ite(aIsC(tv), acVal(tv.Val()), 0)
+//@ macro aiLen(tv ast.TypeValue) uint64 = ite(isVec(atvT(tv)), vlen(atvT(tv)), 0)
+//@ macro aiSc(tv ast.TypeValue) bool = isVec(atvT(tv)) && vscal(atvT(tv))
+//@ macro aiwf(tv ast.TypeValue) bool = (aIsC(tv) ==> acwf(tv.Val())) && (!isVec(atvT(tv)) ==> !typeis(tv.Val(), "*ast.VectorConst"))
+//@ macro gstepA(t types.Type, tv ast.TypeValue) types.Type = ite(typeis(t, "*types.VectorType"), cast(t, "*types.VectorType").ElemType, ite(typeis(t, "*types.ArrayType"), cast(t, "*types.ArrayType").ElemType, cast(t, "*types.StructType").Fields[aiVal(tv)]))
+//@ rec spec gwalkA(e types.Type, tvs []ast.TypeValue, n int) types.Type reads {elems(ast.TypeValue), types.ArrayType.ElemType, types.VectorType.ElemType, types.StructType.Fields, elems(types.Type)} = ite(n <= 1, e, gstepA(gwalkA(e, tvs, n - 1), tvs[n - 1]))
+//@ spec gpairedA(ix []gep.Index, tvs []ast.TypeValue) bool reads {elems(gep.Index), elems(ast.TypeValue), types.ArrayType.ElemType, types.VectorType.ElemType, types.StructType.Fields, elems(types.Type)}
+//@ axiom gpairedATrue: forall(ix []gep.Index, tvs []ast.TypeValue, gpairedA(ix, tvs), pattern(gpairedA(ix, tvs)))
+//@ lemma gwalkSameA: forall(e types.Type, ix []gep.Index, tvs []ast.TypeValue, n int, gpairedA(ix, tvs) && forall(k, 1, n, ix[k].Val == aiVal(tvs[k])) ==> gep.gwalk(e, ix, n) == gwalkA(e, tvs, n), pattern(gep.gwalk(e, ix, n), gpairedA(ix, tvs))) by induction on n
+//@ macro gepPreA(e types.Type, src types.Type, tvs []ast.TypeValue) bool = gsrcOK(src) && forall(k, 0, len(tvs), aiwf(tvs[k]), pattern(tvs[k])) && forall(n, 1, len(tvs), typeis(gwalkA(e, tvs, n), "*types.VectorType") || typeis(gwalkA(e, tvs, n), "*types.ArrayType") || (typeis(gwalkA(e, tvs, n), "*types.StructType") && aiHas(tvs[n]) && 0 <= aiVal(tvs[n]) && aiVal(tvs[n]) < len(cast(gwalkA(e, tvs, n), "*types.StructType").Fields))) && forall(i, 0, len(tvs), aiLen(tvs[i]) != 0 && gsrcvl(src) != 0 ==> aiLen(tvs[i]) == gsrcvl(src) && aiSc(tvs[i]) == gsrcsc(src)) && forall(i int, j int, 0 <= i && i < j && j < len(tvs) && aiLen(tvs[i]) != 0 && aiLen(tvs[j]) != 0 ==> aiLen(tvs[i]) == aiLen(tvs[j]) && aiSc(tvs[i]) == aiSc(tvs[j]))
+//@ macro gepPostA(r types.Type, e types.Type, src types.Type, tvs []ast.TypeValue, reached types.Type) bool = (gsrcvl(src) == 0 && forall(i, 0, len(tvs), aiLen(tvs[i]) == 0) ==> gisptr(r, reached, gsrcas(src))) && (gsrcvl(src) != 0 || exists(i, 0, len(tvs), aiLen(tvs[i]) != 0) ==> typeis(r, "*types.VectorType") && gisptr(cast(r, "*types.VectorType").ElemType, reached, gsrcas(src))) && (gsrcvl(src) != 0 ==> cast(r, "*types.VectorType").Len == gsrcvl(src) && cast(r, "*types.VectorType").Scalable == gsrcsc(src)) && forall(i, 0, len(tvs), aiLen(tvs[i]) != 0 ==> cast(r, "*types.VectorType").Len == aiLen(tvs[i]) && cast(r, "*types.VectorType").Scalable == aiSc(tvs[i]))
+//@ # gepInstType (parser): classifies the written indices and applies gep.ResultType; the result obeys LLVM's rule
+//@ # stated over the written operands themselves.
+//@ func (*generator).gepInstType
+//@   props C07 C06
+//@   requires gen != nil && types.I64 != nil && types.I64.BitSize == 64 && types.I1 != nil && types.I1.BitSize == 1
+//@   requires constant.True != nil && constant.False != nil && constant.True.X != nil && constant.False.X != nil && bigval(constant.True.X) == 1 && bigval(constant.False.X) == 0
+//@   requires gepPreA(elemType, src, indices)
+//@   assigns nothing
+//@   ensures result1 == nil ==> gepPostA(result0, elemType, src, indices, old(gwalkA(elemType, indices, len(indices))))
+//@   loop 0: invariant 0 <= range_i && range_i <= len(indices) && len(idxs) == range_i && (cap(idxs) == 0 || fresh(idxs)) && gpairedA(idxs, indices)
+//@   loop 0: invariant forall(k, 0, range_i, idxs[k].HasVal == aiHas(indices[k]) && idxs[k].Val == aiVal(indices[k]) && idxs[k].VectorLen == aiLen(indices[k]) && idxs[k].Scalable == aiSc(indices[k]))
+
+//@ # newGetElementPtrInst / gepExprType hand gepInstType-style classification the types irType builds; irType is known
+//@ # only up to type identity (tyOf), which does not determine the fields of an identified struct, so the walk below
+//@ # the first level cannot be stated over the written types: no contract (four-way stand-in of C07).
 
 //@ # ---------------------------------------------------------------- C05 / C04 (local identifiers) ---
 //@ # addLocal refuses an identifier that is already indexed and leaves the index as it was; otherwise it
@@ -399,6 +460,22 @@ package asm
 //@   assigns caches
 //@   ensures !mapdom(gen.new.globals, globalIdent(old.Func())) ==> result1 != nil && result0 == nil
 //@   ensures result1 == nil ==> result0 != nil && mapdom(gen.new.globals, globalIdent(old.Func())) && result0.Func == gen.new.globals[globalIdent(old.Func())]
+//@ # the parser's copy of aggregateElemType obeys the same rule as the IR's (ir.aggok / ir.aggty: one index per level,
+//@ # struct fields and array elements)
+//@ func aggregateElemType
+//@   props C06 C03
+//@   requires ir.aggok(t, indices)
+//@   assigns nothing
+//@   ensures result == ir.aggty(t, indices)
+//@ # irFastMathFlags / irAddrSpace read enum keywords and numbers off the syntax tree (out of the verified subset: the
+//@ # generated keyword tables are C18's); assumed to touch nothing but the slice they return.
+//@ func irFastMathFlags
+//@   trusted
+//@   assigns nothing
+//@   ensures len(result) == len(olds) && (len(olds) == 0 || fresh(result))
+//@ func irAddrSpace
+//@   props C06
+//@   pure
 //@ func uintLit
 //@   props C04 C05
 //@   pure
@@ -415,6 +492,757 @@ package asm
 //@   requires forall(c int, mapdomk(gen.new.globals, c) && typeis(mapvalk(gen.new.globals, c), "*ir.Func") ==> cast(mapvalk(gen.new.globals, c), "*ir.Func") != nil && cast(mapvalk(gen.new.globals, c), "*ir.Func").GlobalID >= 0 && forall(k, 0, len(cast(mapvalk(gen.new.globals, c), "*ir.Func").Blocks), cast(mapvalk(gen.new.globals, c), "*ir.Func").Blocks[k] != nil))
 //@   ensures !mapdom(gen.new.globals, globalIdent(old.Func())) ==> result1 != nil && result0 == nil
 //@   ensures result1 == nil ==> result0 != nil && mapdom(gen.new.globals, globalIdent(old.Func())) && boxed(result0.Func) == gen.new.globals[globalIdent(old.Func())] && exists(k, 0, len(result0.Func.Blocks), result0.Block == result0.Func.Blocks[k] && result0.Func.Blocks[k].LocalIdent == localIdent(old.Block()))
+
+
+
+
+
+
+//@ # ==== generated by /verif/tools/gen_asm_operand_contracts.py: begin ====
+//@ # ---------------------------------------------------------------- C04 / C05 (operands of translated instructions and terminators) ---
+//@ # An operand written as %name / @name is the object indexed under that identifier; a branch target is the
+//@ # indexed block; an identifier missing from its index makes the translator return an error.
+//@ # Partial correctness (the executions that return nil); frames by keeps (static keeps-frames).
+//@ func (*funcGen).irExtractValueInst
+//@   props C04 C05
+//@   partial
+//@   requires fgen != nil && fgen.gen != nil && fgen.f != nil && fgen.f.GlobalID >= 0 && old != nil && typeis(new, "*ir.InstExtractValue") && cast(new, "*ir.InstExtractValue") != nil
+//@   assigns anything
+//@   keeps ir.InstExtractValue.X, funcGen.locals, mapof(funcGen.locals), funcGen.gen, funcGen.f, generator.new, newIndex.globals, mapof(newIndex.globals), ir.GlobalIdent.GlobalID
+//@   ensures result == nil && typeis(old.X().Val(), "*ast.LocalIdent") && cast(old.X().Val(), "*ast.LocalIdent") != nil ==> cast(new, "*ir.InstExtractValue").X == old(fgen.locals[localIdent(deref(cast(old.X().Val(), "*ast.LocalIdent")))])
+//@   ensures result == nil && typeis(old.X().Val(), "*ast.GlobalIdent") && cast(old.X().Val(), "*ast.GlobalIdent") != nil ==> cast(new, "*ir.InstExtractValue").X == old(fgen.gen.new.globals[globalIdent(deref(cast(old.X().Val(), "*ast.GlobalIdent")))])
+//@   ensures typeis(old.X().Val(), "*ast.LocalIdent") && cast(old.X().Val(), "*ast.LocalIdent") != nil && !old(mapdom(fgen.locals, localIdent(deref(cast(old.X().Val(), "*ast.LocalIdent"))))) ==> result != nil
+//@   ensures typeis(old.X().Val(), "*ast.GlobalIdent") && cast(old.X().Val(), "*ast.GlobalIdent") != nil && !old(mapdom(fgen.gen.new.globals, globalIdent(deref(cast(old.X().Val(), "*ast.GlobalIdent"))))) ==> result != nil
+//@ func (*funcGen).irInsertValueInst
+//@   props C04 C05
+//@   partial
+//@   requires fgen != nil && fgen.gen != nil && fgen.f != nil && fgen.f.GlobalID >= 0 && old != nil && typeis(new, "*ir.InstInsertValue") && cast(new, "*ir.InstInsertValue") != nil
+//@   assigns anything
+//@   keeps ir.InstInsertValue.X, ir.InstInsertValue.Elem, funcGen.locals, mapof(funcGen.locals), funcGen.gen, funcGen.f, generator.new, newIndex.globals, mapof(newIndex.globals), ir.GlobalIdent.GlobalID
+//@   ensures result == nil && typeis(old.X().Val(), "*ast.LocalIdent") && cast(old.X().Val(), "*ast.LocalIdent") != nil ==> cast(new, "*ir.InstInsertValue").X == old(fgen.locals[localIdent(deref(cast(old.X().Val(), "*ast.LocalIdent")))])
+//@   ensures result == nil && typeis(old.X().Val(), "*ast.GlobalIdent") && cast(old.X().Val(), "*ast.GlobalIdent") != nil ==> cast(new, "*ir.InstInsertValue").X == old(fgen.gen.new.globals[globalIdent(deref(cast(old.X().Val(), "*ast.GlobalIdent")))])
+//@   ensures typeis(old.X().Val(), "*ast.LocalIdent") && cast(old.X().Val(), "*ast.LocalIdent") != nil && !old(mapdom(fgen.locals, localIdent(deref(cast(old.X().Val(), "*ast.LocalIdent"))))) ==> result != nil
+//@   ensures typeis(old.X().Val(), "*ast.GlobalIdent") && cast(old.X().Val(), "*ast.GlobalIdent") != nil && !old(mapdom(fgen.gen.new.globals, globalIdent(deref(cast(old.X().Val(), "*ast.GlobalIdent"))))) ==> result != nil
+//@   ensures result == nil && typeis(old.Elem().Val(), "*ast.LocalIdent") && cast(old.Elem().Val(), "*ast.LocalIdent") != nil ==> cast(new, "*ir.InstInsertValue").Elem == old(fgen.locals[localIdent(deref(cast(old.Elem().Val(), "*ast.LocalIdent")))])
+//@   ensures result == nil && typeis(old.Elem().Val(), "*ast.GlobalIdent") && cast(old.Elem().Val(), "*ast.GlobalIdent") != nil ==> cast(new, "*ir.InstInsertValue").Elem == old(fgen.gen.new.globals[globalIdent(deref(cast(old.Elem().Val(), "*ast.GlobalIdent")))])
+//@   ensures typeis(old.Elem().Val(), "*ast.LocalIdent") && cast(old.Elem().Val(), "*ast.LocalIdent") != nil && !old(mapdom(fgen.locals, localIdent(deref(cast(old.Elem().Val(), "*ast.LocalIdent"))))) ==> result != nil
+//@   ensures typeis(old.Elem().Val(), "*ast.GlobalIdent") && cast(old.Elem().Val(), "*ast.GlobalIdent") != nil && !old(mapdom(fgen.gen.new.globals, globalIdent(deref(cast(old.Elem().Val(), "*ast.GlobalIdent"))))) ==> result != nil
+//@ func (*funcGen).irAddInst
+//@   props C04 C05
+//@   partial
+//@   requires fgen != nil && fgen.gen != nil && fgen.f != nil && fgen.f.GlobalID >= 0 && old != nil && typeis(new, "*ir.InstAdd") && cast(new, "*ir.InstAdd") != nil
+//@   assigns anything
+//@   keeps ir.InstAdd.X, ir.InstAdd.Y, funcGen.locals, mapof(funcGen.locals), funcGen.gen, funcGen.f, generator.new, newIndex.globals, mapof(newIndex.globals), ir.GlobalIdent.GlobalID
+//@   ensures result == nil && typeis(old.X().Val(), "*ast.LocalIdent") && cast(old.X().Val(), "*ast.LocalIdent") != nil ==> cast(new, "*ir.InstAdd").X == old(fgen.locals[localIdent(deref(cast(old.X().Val(), "*ast.LocalIdent")))])
+//@   ensures result == nil && typeis(old.X().Val(), "*ast.GlobalIdent") && cast(old.X().Val(), "*ast.GlobalIdent") != nil ==> cast(new, "*ir.InstAdd").X == old(fgen.gen.new.globals[globalIdent(deref(cast(old.X().Val(), "*ast.GlobalIdent")))])
+//@   ensures typeis(old.X().Val(), "*ast.LocalIdent") && cast(old.X().Val(), "*ast.LocalIdent") != nil && !old(mapdom(fgen.locals, localIdent(deref(cast(old.X().Val(), "*ast.LocalIdent"))))) ==> result != nil
+//@   ensures typeis(old.X().Val(), "*ast.GlobalIdent") && cast(old.X().Val(), "*ast.GlobalIdent") != nil && !old(mapdom(fgen.gen.new.globals, globalIdent(deref(cast(old.X().Val(), "*ast.GlobalIdent"))))) ==> result != nil
+//@   ensures result == nil && typeis(old.Y(), "*ast.LocalIdent") && cast(old.Y(), "*ast.LocalIdent") != nil ==> cast(new, "*ir.InstAdd").Y == old(fgen.locals[localIdent(deref(cast(old.Y(), "*ast.LocalIdent")))])
+//@   ensures result == nil && typeis(old.Y(), "*ast.GlobalIdent") && cast(old.Y(), "*ast.GlobalIdent") != nil ==> cast(new, "*ir.InstAdd").Y == old(fgen.gen.new.globals[globalIdent(deref(cast(old.Y(), "*ast.GlobalIdent")))])
+//@   ensures typeis(old.Y(), "*ast.LocalIdent") && cast(old.Y(), "*ast.LocalIdent") != nil && !old(mapdom(fgen.locals, localIdent(deref(cast(old.Y(), "*ast.LocalIdent"))))) ==> result != nil
+//@   ensures typeis(old.Y(), "*ast.GlobalIdent") && cast(old.Y(), "*ast.GlobalIdent") != nil && !old(mapdom(fgen.gen.new.globals, globalIdent(deref(cast(old.Y(), "*ast.GlobalIdent"))))) ==> result != nil
+//@ func (*funcGen).irFAddInst
+//@   props C04 C05
+//@   partial
+//@   requires fgen != nil && fgen.gen != nil && fgen.f != nil && fgen.f.GlobalID >= 0 && old != nil && typeis(new, "*ir.InstFAdd") && cast(new, "*ir.InstFAdd") != nil
+//@   assigns anything
+//@   keeps ir.InstFAdd.X, ir.InstFAdd.Y, funcGen.locals, mapof(funcGen.locals), funcGen.gen, funcGen.f, generator.new, newIndex.globals, mapof(newIndex.globals), ir.GlobalIdent.GlobalID
+//@   ensures result == nil && typeis(old.X().Val(), "*ast.LocalIdent") && cast(old.X().Val(), "*ast.LocalIdent") != nil ==> cast(new, "*ir.InstFAdd").X == old(fgen.locals[localIdent(deref(cast(old.X().Val(), "*ast.LocalIdent")))])
+//@   ensures result == nil && typeis(old.X().Val(), "*ast.GlobalIdent") && cast(old.X().Val(), "*ast.GlobalIdent") != nil ==> cast(new, "*ir.InstFAdd").X == old(fgen.gen.new.globals[globalIdent(deref(cast(old.X().Val(), "*ast.GlobalIdent")))])
+//@   ensures typeis(old.X().Val(), "*ast.LocalIdent") && cast(old.X().Val(), "*ast.LocalIdent") != nil && !old(mapdom(fgen.locals, localIdent(deref(cast(old.X().Val(), "*ast.LocalIdent"))))) ==> result != nil
+//@   ensures typeis(old.X().Val(), "*ast.GlobalIdent") && cast(old.X().Val(), "*ast.GlobalIdent") != nil && !old(mapdom(fgen.gen.new.globals, globalIdent(deref(cast(old.X().Val(), "*ast.GlobalIdent"))))) ==> result != nil
+//@   ensures result == nil && typeis(old.Y(), "*ast.LocalIdent") && cast(old.Y(), "*ast.LocalIdent") != nil ==> cast(new, "*ir.InstFAdd").Y == old(fgen.locals[localIdent(deref(cast(old.Y(), "*ast.LocalIdent")))])
+//@   ensures result == nil && typeis(old.Y(), "*ast.GlobalIdent") && cast(old.Y(), "*ast.GlobalIdent") != nil ==> cast(new, "*ir.InstFAdd").Y == old(fgen.gen.new.globals[globalIdent(deref(cast(old.Y(), "*ast.GlobalIdent")))])
+//@   ensures typeis(old.Y(), "*ast.LocalIdent") && cast(old.Y(), "*ast.LocalIdent") != nil && !old(mapdom(fgen.locals, localIdent(deref(cast(old.Y(), "*ast.LocalIdent"))))) ==> result != nil
+//@   ensures typeis(old.Y(), "*ast.GlobalIdent") && cast(old.Y(), "*ast.GlobalIdent") != nil && !old(mapdom(fgen.gen.new.globals, globalIdent(deref(cast(old.Y(), "*ast.GlobalIdent"))))) ==> result != nil
+//@ func (*funcGen).irSubInst
+//@   props C04 C05
+//@   partial
+//@   requires fgen != nil && fgen.gen != nil && fgen.f != nil && fgen.f.GlobalID >= 0 && old != nil && typeis(new, "*ir.InstSub") && cast(new, "*ir.InstSub") != nil
+//@   assigns anything
+//@   keeps ir.InstSub.X, ir.InstSub.Y, funcGen.locals, mapof(funcGen.locals), funcGen.gen, funcGen.f, generator.new, newIndex.globals, mapof(newIndex.globals), ir.GlobalIdent.GlobalID
+//@   ensures result == nil && typeis(old.X().Val(), "*ast.LocalIdent") && cast(old.X().Val(), "*ast.LocalIdent") != nil ==> cast(new, "*ir.InstSub").X == old(fgen.locals[localIdent(deref(cast(old.X().Val(), "*ast.LocalIdent")))])
+//@   ensures result == nil && typeis(old.X().Val(), "*ast.GlobalIdent") && cast(old.X().Val(), "*ast.GlobalIdent") != nil ==> cast(new, "*ir.InstSub").X == old(fgen.gen.new.globals[globalIdent(deref(cast(old.X().Val(), "*ast.GlobalIdent")))])
+//@   ensures typeis(old.X().Val(), "*ast.LocalIdent") && cast(old.X().Val(), "*ast.LocalIdent") != nil && !old(mapdom(fgen.locals, localIdent(deref(cast(old.X().Val(), "*ast.LocalIdent"))))) ==> result != nil
+//@   ensures typeis(old.X().Val(), "*ast.GlobalIdent") && cast(old.X().Val(), "*ast.GlobalIdent") != nil && !old(mapdom(fgen.gen.new.globals, globalIdent(deref(cast(old.X().Val(), "*ast.GlobalIdent"))))) ==> result != nil
+//@   ensures result == nil && typeis(old.Y(), "*ast.LocalIdent") && cast(old.Y(), "*ast.LocalIdent") != nil ==> cast(new, "*ir.InstSub").Y == old(fgen.locals[localIdent(deref(cast(old.Y(), "*ast.LocalIdent")))])
+//@   ensures result == nil && typeis(old.Y(), "*ast.GlobalIdent") && cast(old.Y(), "*ast.GlobalIdent") != nil ==> cast(new, "*ir.InstSub").Y == old(fgen.gen.new.globals[globalIdent(deref(cast(old.Y(), "*ast.GlobalIdent")))])
+//@   ensures typeis(old.Y(), "*ast.LocalIdent") && cast(old.Y(), "*ast.LocalIdent") != nil && !old(mapdom(fgen.locals, localIdent(deref(cast(old.Y(), "*ast.LocalIdent"))))) ==> result != nil
+//@   ensures typeis(old.Y(), "*ast.GlobalIdent") && cast(old.Y(), "*ast.GlobalIdent") != nil && !old(mapdom(fgen.gen.new.globals, globalIdent(deref(cast(old.Y(), "*ast.GlobalIdent"))))) ==> result != nil
+//@ func (*funcGen).irFSubInst
+//@   props C04 C05
+//@   partial
+//@   requires fgen != nil && fgen.gen != nil && fgen.f != nil && fgen.f.GlobalID >= 0 && old != nil && typeis(new, "*ir.InstFSub") && cast(new, "*ir.InstFSub") != nil
+//@   assigns anything
+//@   keeps ir.InstFSub.X, ir.InstFSub.Y, funcGen.locals, mapof(funcGen.locals), funcGen.gen, funcGen.f, generator.new, newIndex.globals, mapof(newIndex.globals), ir.GlobalIdent.GlobalID
+//@   ensures result == nil && typeis(old.X().Val(), "*ast.LocalIdent") && cast(old.X().Val(), "*ast.LocalIdent") != nil ==> cast(new, "*ir.InstFSub").X == old(fgen.locals[localIdent(deref(cast(old.X().Val(), "*ast.LocalIdent")))])
+//@   ensures result == nil && typeis(old.X().Val(), "*ast.GlobalIdent") && cast(old.X().Val(), "*ast.GlobalIdent") != nil ==> cast(new, "*ir.InstFSub").X == old(fgen.gen.new.globals[globalIdent(deref(cast(old.X().Val(), "*ast.GlobalIdent")))])
+//@   ensures typeis(old.X().Val(), "*ast.LocalIdent") && cast(old.X().Val(), "*ast.LocalIdent") != nil && !old(mapdom(fgen.locals, localIdent(deref(cast(old.X().Val(), "*ast.LocalIdent"))))) ==> result != nil
+//@   ensures typeis(old.X().Val(), "*ast.GlobalIdent") && cast(old.X().Val(), "*ast.GlobalIdent") != nil && !old(mapdom(fgen.gen.new.globals, globalIdent(deref(cast(old.X().Val(), "*ast.GlobalIdent"))))) ==> result != nil
+//@   ensures result == nil && typeis(old.Y(), "*ast.LocalIdent") && cast(old.Y(), "*ast.LocalIdent") != nil ==> cast(new, "*ir.InstFSub").Y == old(fgen.locals[localIdent(deref(cast(old.Y(), "*ast.LocalIdent")))])
+//@   ensures result == nil && typeis(old.Y(), "*ast.GlobalIdent") && cast(old.Y(), "*ast.GlobalIdent") != nil ==> cast(new, "*ir.InstFSub").Y == old(fgen.gen.new.globals[globalIdent(deref(cast(old.Y(), "*ast.GlobalIdent")))])
+//@   ensures typeis(old.Y(), "*ast.LocalIdent") && cast(old.Y(), "*ast.LocalIdent") != nil && !old(mapdom(fgen.locals, localIdent(deref(cast(old.Y(), "*ast.LocalIdent"))))) ==> result != nil
+//@   ensures typeis(old.Y(), "*ast.GlobalIdent") && cast(old.Y(), "*ast.GlobalIdent") != nil && !old(mapdom(fgen.gen.new.globals, globalIdent(deref(cast(old.Y(), "*ast.GlobalIdent"))))) ==> result != nil
+//@ func (*funcGen).irMulInst
+//@   props C04 C05
+//@   partial
+//@   requires fgen != nil && fgen.gen != nil && fgen.f != nil && fgen.f.GlobalID >= 0 && old != nil && typeis(new, "*ir.InstMul") && cast(new, "*ir.InstMul") != nil
+//@   assigns anything
+//@   keeps ir.InstMul.X, ir.InstMul.Y, funcGen.locals, mapof(funcGen.locals), funcGen.gen, funcGen.f, generator.new, newIndex.globals, mapof(newIndex.globals), ir.GlobalIdent.GlobalID
+//@   ensures result == nil && typeis(old.X().Val(), "*ast.LocalIdent") && cast(old.X().Val(), "*ast.LocalIdent") != nil ==> cast(new, "*ir.InstMul").X == old(fgen.locals[localIdent(deref(cast(old.X().Val(), "*ast.LocalIdent")))])
+//@   ensures result == nil && typeis(old.X().Val(), "*ast.GlobalIdent") && cast(old.X().Val(), "*ast.GlobalIdent") != nil ==> cast(new, "*ir.InstMul").X == old(fgen.gen.new.globals[globalIdent(deref(cast(old.X().Val(), "*ast.GlobalIdent")))])
+//@   ensures typeis(old.X().Val(), "*ast.LocalIdent") && cast(old.X().Val(), "*ast.LocalIdent") != nil && !old(mapdom(fgen.locals, localIdent(deref(cast(old.X().Val(), "*ast.LocalIdent"))))) ==> result != nil
+//@   ensures typeis(old.X().Val(), "*ast.GlobalIdent") && cast(old.X().Val(), "*ast.GlobalIdent") != nil && !old(mapdom(fgen.gen.new.globals, globalIdent(deref(cast(old.X().Val(), "*ast.GlobalIdent"))))) ==> result != nil
+//@   ensures result == nil && typeis(old.Y(), "*ast.LocalIdent") && cast(old.Y(), "*ast.LocalIdent") != nil ==> cast(new, "*ir.InstMul").Y == old(fgen.locals[localIdent(deref(cast(old.Y(), "*ast.LocalIdent")))])
+//@   ensures result == nil && typeis(old.Y(), "*ast.GlobalIdent") && cast(old.Y(), "*ast.GlobalIdent") != nil ==> cast(new, "*ir.InstMul").Y == old(fgen.gen.new.globals[globalIdent(deref(cast(old.Y(), "*ast.GlobalIdent")))])
+//@   ensures typeis(old.Y(), "*ast.LocalIdent") && cast(old.Y(), "*ast.LocalIdent") != nil && !old(mapdom(fgen.locals, localIdent(deref(cast(old.Y(), "*ast.LocalIdent"))))) ==> result != nil
+//@   ensures typeis(old.Y(), "*ast.GlobalIdent") && cast(old.Y(), "*ast.GlobalIdent") != nil && !old(mapdom(fgen.gen.new.globals, globalIdent(deref(cast(old.Y(), "*ast.GlobalIdent"))))) ==> result != nil
+//@ func (*funcGen).irFMulInst
+//@   props C04 C05
+//@   partial
+//@   requires fgen != nil && fgen.gen != nil && fgen.f != nil && fgen.f.GlobalID >= 0 && old != nil && typeis(new, "*ir.InstFMul") && cast(new, "*ir.InstFMul") != nil
+//@   assigns anything
+//@   keeps ir.InstFMul.X, ir.InstFMul.Y, funcGen.locals, mapof(funcGen.locals), funcGen.gen, funcGen.f, generator.new, newIndex.globals, mapof(newIndex.globals), ir.GlobalIdent.GlobalID
+//@   ensures result == nil && typeis(old.X().Val(), "*ast.LocalIdent") && cast(old.X().Val(), "*ast.LocalIdent") != nil ==> cast(new, "*ir.InstFMul").X == old(fgen.locals[localIdent(deref(cast(old.X().Val(), "*ast.LocalIdent")))])
+//@   ensures result == nil && typeis(old.X().Val(), "*ast.GlobalIdent") && cast(old.X().Val(), "*ast.GlobalIdent") != nil ==> cast(new, "*ir.InstFMul").X == old(fgen.gen.new.globals[globalIdent(deref(cast(old.X().Val(), "*ast.GlobalIdent")))])
+//@   ensures typeis(old.X().Val(), "*ast.LocalIdent") && cast(old.X().Val(), "*ast.LocalIdent") != nil && !old(mapdom(fgen.locals, localIdent(deref(cast(old.X().Val(), "*ast.LocalIdent"))))) ==> result != nil
+//@   ensures typeis(old.X().Val(), "*ast.GlobalIdent") && cast(old.X().Val(), "*ast.GlobalIdent") != nil && !old(mapdom(fgen.gen.new.globals, globalIdent(deref(cast(old.X().Val(), "*ast.GlobalIdent"))))) ==> result != nil
+//@   ensures result == nil && typeis(old.Y(), "*ast.LocalIdent") && cast(old.Y(), "*ast.LocalIdent") != nil ==> cast(new, "*ir.InstFMul").Y == old(fgen.locals[localIdent(deref(cast(old.Y(), "*ast.LocalIdent")))])
+//@   ensures result == nil && typeis(old.Y(), "*ast.GlobalIdent") && cast(old.Y(), "*ast.GlobalIdent") != nil ==> cast(new, "*ir.InstFMul").Y == old(fgen.gen.new.globals[globalIdent(deref(cast(old.Y(), "*ast.GlobalIdent")))])
+//@   ensures typeis(old.Y(), "*ast.LocalIdent") && cast(old.Y(), "*ast.LocalIdent") != nil && !old(mapdom(fgen.locals, localIdent(deref(cast(old.Y(), "*ast.LocalIdent"))))) ==> result != nil
+//@   ensures typeis(old.Y(), "*ast.GlobalIdent") && cast(old.Y(), "*ast.GlobalIdent") != nil && !old(mapdom(fgen.gen.new.globals, globalIdent(deref(cast(old.Y(), "*ast.GlobalIdent"))))) ==> result != nil
+//@ func (*funcGen).irUDivInst
+//@   props C04 C05
+//@   partial
+//@   requires fgen != nil && fgen.gen != nil && fgen.f != nil && fgen.f.GlobalID >= 0 && old != nil && typeis(new, "*ir.InstUDiv") && cast(new, "*ir.InstUDiv") != nil
+//@   assigns anything
+//@   keeps ir.InstUDiv.X, ir.InstUDiv.Y, funcGen.locals, mapof(funcGen.locals), funcGen.gen, funcGen.f, generator.new, newIndex.globals, mapof(newIndex.globals), ir.GlobalIdent.GlobalID
+//@   ensures result == nil && typeis(old.X().Val(), "*ast.LocalIdent") && cast(old.X().Val(), "*ast.LocalIdent") != nil ==> cast(new, "*ir.InstUDiv").X == old(fgen.locals[localIdent(deref(cast(old.X().Val(), "*ast.LocalIdent")))])
+//@   ensures result == nil && typeis(old.X().Val(), "*ast.GlobalIdent") && cast(old.X().Val(), "*ast.GlobalIdent") != nil ==> cast(new, "*ir.InstUDiv").X == old(fgen.gen.new.globals[globalIdent(deref(cast(old.X().Val(), "*ast.GlobalIdent")))])
+//@   ensures typeis(old.X().Val(), "*ast.LocalIdent") && cast(old.X().Val(), "*ast.LocalIdent") != nil && !old(mapdom(fgen.locals, localIdent(deref(cast(old.X().Val(), "*ast.LocalIdent"))))) ==> result != nil
+//@   ensures typeis(old.X().Val(), "*ast.GlobalIdent") && cast(old.X().Val(), "*ast.GlobalIdent") != nil && !old(mapdom(fgen.gen.new.globals, globalIdent(deref(cast(old.X().Val(), "*ast.GlobalIdent"))))) ==> result != nil
+//@   ensures result == nil && typeis(old.Y(), "*ast.LocalIdent") && cast(old.Y(), "*ast.LocalIdent") != nil ==> cast(new, "*ir.InstUDiv").Y == old(fgen.locals[localIdent(deref(cast(old.Y(), "*ast.LocalIdent")))])
+//@   ensures result == nil && typeis(old.Y(), "*ast.GlobalIdent") && cast(old.Y(), "*ast.GlobalIdent") != nil ==> cast(new, "*ir.InstUDiv").Y == old(fgen.gen.new.globals[globalIdent(deref(cast(old.Y(), "*ast.GlobalIdent")))])
+//@   ensures typeis(old.Y(), "*ast.LocalIdent") && cast(old.Y(), "*ast.LocalIdent") != nil && !old(mapdom(fgen.locals, localIdent(deref(cast(old.Y(), "*ast.LocalIdent"))))) ==> result != nil
+//@   ensures typeis(old.Y(), "*ast.GlobalIdent") && cast(old.Y(), "*ast.GlobalIdent") != nil && !old(mapdom(fgen.gen.new.globals, globalIdent(deref(cast(old.Y(), "*ast.GlobalIdent"))))) ==> result != nil
+//@ func (*funcGen).irSDivInst
+//@   props C04 C05
+//@   partial
+//@   requires fgen != nil && fgen.gen != nil && fgen.f != nil && fgen.f.GlobalID >= 0 && old != nil && typeis(new, "*ir.InstSDiv") && cast(new, "*ir.InstSDiv") != nil
+//@   assigns anything
+//@   keeps ir.InstSDiv.X, ir.InstSDiv.Y, funcGen.locals, mapof(funcGen.locals), funcGen.gen, funcGen.f, generator.new, newIndex.globals, mapof(newIndex.globals), ir.GlobalIdent.GlobalID
+//@   ensures result == nil && typeis(old.X().Val(), "*ast.LocalIdent") && cast(old.X().Val(), "*ast.LocalIdent") != nil ==> cast(new, "*ir.InstSDiv").X == old(fgen.locals[localIdent(deref(cast(old.X().Val(), "*ast.LocalIdent")))])
+//@   ensures result == nil && typeis(old.X().Val(), "*ast.GlobalIdent") && cast(old.X().Val(), "*ast.GlobalIdent") != nil ==> cast(new, "*ir.InstSDiv").X == old(fgen.gen.new.globals[globalIdent(deref(cast(old.X().Val(), "*ast.GlobalIdent")))])
+//@   ensures typeis(old.X().Val(), "*ast.LocalIdent") && cast(old.X().Val(), "*ast.LocalIdent") != nil && !old(mapdom(fgen.locals, localIdent(deref(cast(old.X().Val(), "*ast.LocalIdent"))))) ==> result != nil
+//@   ensures typeis(old.X().Val(), "*ast.GlobalIdent") && cast(old.X().Val(), "*ast.GlobalIdent") != nil && !old(mapdom(fgen.gen.new.globals, globalIdent(deref(cast(old.X().Val(), "*ast.GlobalIdent"))))) ==> result != nil
+//@   ensures result == nil && typeis(old.Y(), "*ast.LocalIdent") && cast(old.Y(), "*ast.LocalIdent") != nil ==> cast(new, "*ir.InstSDiv").Y == old(fgen.locals[localIdent(deref(cast(old.Y(), "*ast.LocalIdent")))])
+//@   ensures result == nil && typeis(old.Y(), "*ast.GlobalIdent") && cast(old.Y(), "*ast.GlobalIdent") != nil ==> cast(new, "*ir.InstSDiv").Y == old(fgen.gen.new.globals[globalIdent(deref(cast(old.Y(), "*ast.GlobalIdent")))])
+//@   ensures typeis(old.Y(), "*ast.LocalIdent") && cast(old.Y(), "*ast.LocalIdent") != nil && !old(mapdom(fgen.locals, localIdent(deref(cast(old.Y(), "*ast.LocalIdent"))))) ==> result != nil
+//@   ensures typeis(old.Y(), "*ast.GlobalIdent") && cast(old.Y(), "*ast.GlobalIdent") != nil && !old(mapdom(fgen.gen.new.globals, globalIdent(deref(cast(old.Y(), "*ast.GlobalIdent"))))) ==> result != nil
+//@ func (*funcGen).irFDivInst
+//@   props C04 C05
+//@   partial
+//@   requires fgen != nil && fgen.gen != nil && fgen.f != nil && fgen.f.GlobalID >= 0 && old != nil && typeis(new, "*ir.InstFDiv") && cast(new, "*ir.InstFDiv") != nil
+//@   assigns anything
+//@   keeps ir.InstFDiv.X, ir.InstFDiv.Y, funcGen.locals, mapof(funcGen.locals), funcGen.gen, funcGen.f, generator.new, newIndex.globals, mapof(newIndex.globals), ir.GlobalIdent.GlobalID
+//@   ensures result == nil && typeis(old.X().Val(), "*ast.LocalIdent") && cast(old.X().Val(), "*ast.LocalIdent") != nil ==> cast(new, "*ir.InstFDiv").X == old(fgen.locals[localIdent(deref(cast(old.X().Val(), "*ast.LocalIdent")))])
+//@   ensures result == nil && typeis(old.X().Val(), "*ast.GlobalIdent") && cast(old.X().Val(), "*ast.GlobalIdent") != nil ==> cast(new, "*ir.InstFDiv").X == old(fgen.gen.new.globals[globalIdent(deref(cast(old.X().Val(), "*ast.GlobalIdent")))])
+//@   ensures typeis(old.X().Val(), "*ast.LocalIdent") && cast(old.X().Val(), "*ast.LocalIdent") != nil && !old(mapdom(fgen.locals, localIdent(deref(cast(old.X().Val(), "*ast.LocalIdent"))))) ==> result != nil
+//@   ensures typeis(old.X().Val(), "*ast.GlobalIdent") && cast(old.X().Val(), "*ast.GlobalIdent") != nil && !old(mapdom(fgen.gen.new.globals, globalIdent(deref(cast(old.X().Val(), "*ast.GlobalIdent"))))) ==> result != nil
+//@   ensures result == nil && typeis(old.Y(), "*ast.LocalIdent") && cast(old.Y(), "*ast.LocalIdent") != nil ==> cast(new, "*ir.InstFDiv").Y == old(fgen.locals[localIdent(deref(cast(old.Y(), "*ast.LocalIdent")))])
+//@   ensures result == nil && typeis(old.Y(), "*ast.GlobalIdent") && cast(old.Y(), "*ast.GlobalIdent") != nil ==> cast(new, "*ir.InstFDiv").Y == old(fgen.gen.new.globals[globalIdent(deref(cast(old.Y(), "*ast.GlobalIdent")))])
+//@   ensures typeis(old.Y(), "*ast.LocalIdent") && cast(old.Y(), "*ast.LocalIdent") != nil && !old(mapdom(fgen.locals, localIdent(deref(cast(old.Y(), "*ast.LocalIdent"))))) ==> result != nil
+//@   ensures typeis(old.Y(), "*ast.GlobalIdent") && cast(old.Y(), "*ast.GlobalIdent") != nil && !old(mapdom(fgen.gen.new.globals, globalIdent(deref(cast(old.Y(), "*ast.GlobalIdent"))))) ==> result != nil
+//@ func (*funcGen).irURemInst
+//@   props C04 C05
+//@   partial
+//@   requires fgen != nil && fgen.gen != nil && fgen.f != nil && fgen.f.GlobalID >= 0 && old != nil && typeis(new, "*ir.InstURem") && cast(new, "*ir.InstURem") != nil
+//@   assigns anything
+//@   keeps ir.InstURem.X, ir.InstURem.Y, funcGen.locals, mapof(funcGen.locals), funcGen.gen, funcGen.f, generator.new, newIndex.globals, mapof(newIndex.globals), ir.GlobalIdent.GlobalID
+//@   ensures result == nil && typeis(old.X().Val(), "*ast.LocalIdent") && cast(old.X().Val(), "*ast.LocalIdent") != nil ==> cast(new, "*ir.InstURem").X == old(fgen.locals[localIdent(deref(cast(old.X().Val(), "*ast.LocalIdent")))])
+//@   ensures result == nil && typeis(old.X().Val(), "*ast.GlobalIdent") && cast(old.X().Val(), "*ast.GlobalIdent") != nil ==> cast(new, "*ir.InstURem").X == old(fgen.gen.new.globals[globalIdent(deref(cast(old.X().Val(), "*ast.GlobalIdent")))])
+//@   ensures typeis(old.X().Val(), "*ast.LocalIdent") && cast(old.X().Val(), "*ast.LocalIdent") != nil && !old(mapdom(fgen.locals, localIdent(deref(cast(old.X().Val(), "*ast.LocalIdent"))))) ==> result != nil
+//@   ensures typeis(old.X().Val(), "*ast.GlobalIdent") && cast(old.X().Val(), "*ast.GlobalIdent") != nil && !old(mapdom(fgen.gen.new.globals, globalIdent(deref(cast(old.X().Val(), "*ast.GlobalIdent"))))) ==> result != nil
+//@   ensures result == nil && typeis(old.Y(), "*ast.LocalIdent") && cast(old.Y(), "*ast.LocalIdent") != nil ==> cast(new, "*ir.InstURem").Y == old(fgen.locals[localIdent(deref(cast(old.Y(), "*ast.LocalIdent")))])
+//@   ensures result == nil && typeis(old.Y(), "*ast.GlobalIdent") && cast(old.Y(), "*ast.GlobalIdent") != nil ==> cast(new, "*ir.InstURem").Y == old(fgen.gen.new.globals[globalIdent(deref(cast(old.Y(), "*ast.GlobalIdent")))])
+//@   ensures typeis(old.Y(), "*ast.LocalIdent") && cast(old.Y(), "*ast.LocalIdent") != nil && !old(mapdom(fgen.locals, localIdent(deref(cast(old.Y(), "*ast.LocalIdent"))))) ==> result != nil
+//@   ensures typeis(old.Y(), "*ast.GlobalIdent") && cast(old.Y(), "*ast.GlobalIdent") != nil && !old(mapdom(fgen.gen.new.globals, globalIdent(deref(cast(old.Y(), "*ast.GlobalIdent"))))) ==> result != nil
+//@ func (*funcGen).irSRemInst
+//@   props C04 C05
+//@   partial
+//@   requires fgen != nil && fgen.gen != nil && fgen.f != nil && fgen.f.GlobalID >= 0 && old != nil && typeis(new, "*ir.InstSRem") && cast(new, "*ir.InstSRem") != nil
+//@   assigns anything
+//@   keeps ir.InstSRem.X, ir.InstSRem.Y, funcGen.locals, mapof(funcGen.locals), funcGen.gen, funcGen.f, generator.new, newIndex.globals, mapof(newIndex.globals), ir.GlobalIdent.GlobalID
+//@   ensures result == nil && typeis(old.X().Val(), "*ast.LocalIdent") && cast(old.X().Val(), "*ast.LocalIdent") != nil ==> cast(new, "*ir.InstSRem").X == old(fgen.locals[localIdent(deref(cast(old.X().Val(), "*ast.LocalIdent")))])
+//@   ensures result == nil && typeis(old.X().Val(), "*ast.GlobalIdent") && cast(old.X().Val(), "*ast.GlobalIdent") != nil ==> cast(new, "*ir.InstSRem").X == old(fgen.gen.new.globals[globalIdent(deref(cast(old.X().Val(), "*ast.GlobalIdent")))])
+//@   ensures typeis(old.X().Val(), "*ast.LocalIdent") && cast(old.X().Val(), "*ast.LocalIdent") != nil && !old(mapdom(fgen.locals, localIdent(deref(cast(old.X().Val(), "*ast.LocalIdent"))))) ==> result != nil
+//@   ensures typeis(old.X().Val(), "*ast.GlobalIdent") && cast(old.X().Val(), "*ast.GlobalIdent") != nil && !old(mapdom(fgen.gen.new.globals, globalIdent(deref(cast(old.X().Val(), "*ast.GlobalIdent"))))) ==> result != nil
+//@   ensures result == nil && typeis(old.Y(), "*ast.LocalIdent") && cast(old.Y(), "*ast.LocalIdent") != nil ==> cast(new, "*ir.InstSRem").Y == old(fgen.locals[localIdent(deref(cast(old.Y(), "*ast.LocalIdent")))])
+//@   ensures result == nil && typeis(old.Y(), "*ast.GlobalIdent") && cast(old.Y(), "*ast.GlobalIdent") != nil ==> cast(new, "*ir.InstSRem").Y == old(fgen.gen.new.globals[globalIdent(deref(cast(old.Y(), "*ast.GlobalIdent")))])
+//@   ensures typeis(old.Y(), "*ast.LocalIdent") && cast(old.Y(), "*ast.LocalIdent") != nil && !old(mapdom(fgen.locals, localIdent(deref(cast(old.Y(), "*ast.LocalIdent"))))) ==> result != nil
+//@   ensures typeis(old.Y(), "*ast.GlobalIdent") && cast(old.Y(), "*ast.GlobalIdent") != nil && !old(mapdom(fgen.gen.new.globals, globalIdent(deref(cast(old.Y(), "*ast.GlobalIdent"))))) ==> result != nil
+//@ func (*funcGen).irFRemInst
+//@   props C04 C05
+//@   partial
+//@   requires fgen != nil && fgen.gen != nil && fgen.f != nil && fgen.f.GlobalID >= 0 && old != nil && typeis(new, "*ir.InstFRem") && cast(new, "*ir.InstFRem") != nil
+//@   assigns anything
+//@   keeps ir.InstFRem.X, ir.InstFRem.Y, funcGen.locals, mapof(funcGen.locals), funcGen.gen, funcGen.f, generator.new, newIndex.globals, mapof(newIndex.globals), ir.GlobalIdent.GlobalID
+//@   ensures result == nil && typeis(old.X().Val(), "*ast.LocalIdent") && cast(old.X().Val(), "*ast.LocalIdent") != nil ==> cast(new, "*ir.InstFRem").X == old(fgen.locals[localIdent(deref(cast(old.X().Val(), "*ast.LocalIdent")))])
+//@   ensures result == nil && typeis(old.X().Val(), "*ast.GlobalIdent") && cast(old.X().Val(), "*ast.GlobalIdent") != nil ==> cast(new, "*ir.InstFRem").X == old(fgen.gen.new.globals[globalIdent(deref(cast(old.X().Val(), "*ast.GlobalIdent")))])
+//@   ensures typeis(old.X().Val(), "*ast.LocalIdent") && cast(old.X().Val(), "*ast.LocalIdent") != nil && !old(mapdom(fgen.locals, localIdent(deref(cast(old.X().Val(), "*ast.LocalIdent"))))) ==> result != nil
+//@   ensures typeis(old.X().Val(), "*ast.GlobalIdent") && cast(old.X().Val(), "*ast.GlobalIdent") != nil && !old(mapdom(fgen.gen.new.globals, globalIdent(deref(cast(old.X().Val(), "*ast.GlobalIdent"))))) ==> result != nil
+//@   ensures result == nil && typeis(old.Y(), "*ast.LocalIdent") && cast(old.Y(), "*ast.LocalIdent") != nil ==> cast(new, "*ir.InstFRem").Y == old(fgen.locals[localIdent(deref(cast(old.Y(), "*ast.LocalIdent")))])
+//@   ensures result == nil && typeis(old.Y(), "*ast.GlobalIdent") && cast(old.Y(), "*ast.GlobalIdent") != nil ==> cast(new, "*ir.InstFRem").Y == old(fgen.gen.new.globals[globalIdent(deref(cast(old.Y(), "*ast.GlobalIdent")))])
+//@   ensures typeis(old.Y(), "*ast.LocalIdent") && cast(old.Y(), "*ast.LocalIdent") != nil && !old(mapdom(fgen.locals, localIdent(deref(cast(old.Y(), "*ast.LocalIdent"))))) ==> result != nil
+//@   ensures typeis(old.Y(), "*ast.GlobalIdent") && cast(old.Y(), "*ast.GlobalIdent") != nil && !old(mapdom(fgen.gen.new.globals, globalIdent(deref(cast(old.Y(), "*ast.GlobalIdent"))))) ==> result != nil
+//@ func (*funcGen).irShlInst
+//@   props C04 C05
+//@   partial
+//@   requires fgen != nil && fgen.gen != nil && fgen.f != nil && fgen.f.GlobalID >= 0 && old != nil && typeis(new, "*ir.InstShl") && cast(new, "*ir.InstShl") != nil
+//@   assigns anything
+//@   keeps ir.InstShl.X, ir.InstShl.Y, funcGen.locals, mapof(funcGen.locals), funcGen.gen, funcGen.f, generator.new, newIndex.globals, mapof(newIndex.globals), ir.GlobalIdent.GlobalID
+//@   ensures result == nil && typeis(old.X().Val(), "*ast.LocalIdent") && cast(old.X().Val(), "*ast.LocalIdent") != nil ==> cast(new, "*ir.InstShl").X == old(fgen.locals[localIdent(deref(cast(old.X().Val(), "*ast.LocalIdent")))])
+//@   ensures result == nil && typeis(old.X().Val(), "*ast.GlobalIdent") && cast(old.X().Val(), "*ast.GlobalIdent") != nil ==> cast(new, "*ir.InstShl").X == old(fgen.gen.new.globals[globalIdent(deref(cast(old.X().Val(), "*ast.GlobalIdent")))])
+//@   ensures typeis(old.X().Val(), "*ast.LocalIdent") && cast(old.X().Val(), "*ast.LocalIdent") != nil && !old(mapdom(fgen.locals, localIdent(deref(cast(old.X().Val(), "*ast.LocalIdent"))))) ==> result != nil
+//@   ensures typeis(old.X().Val(), "*ast.GlobalIdent") && cast(old.X().Val(), "*ast.GlobalIdent") != nil && !old(mapdom(fgen.gen.new.globals, globalIdent(deref(cast(old.X().Val(), "*ast.GlobalIdent"))))) ==> result != nil
+//@   ensures result == nil && typeis(old.Y(), "*ast.LocalIdent") && cast(old.Y(), "*ast.LocalIdent") != nil ==> cast(new, "*ir.InstShl").Y == old(fgen.locals[localIdent(deref(cast(old.Y(), "*ast.LocalIdent")))])
+//@   ensures result == nil && typeis(old.Y(), "*ast.GlobalIdent") && cast(old.Y(), "*ast.GlobalIdent") != nil ==> cast(new, "*ir.InstShl").Y == old(fgen.gen.new.globals[globalIdent(deref(cast(old.Y(), "*ast.GlobalIdent")))])
+//@   ensures typeis(old.Y(), "*ast.LocalIdent") && cast(old.Y(), "*ast.LocalIdent") != nil && !old(mapdom(fgen.locals, localIdent(deref(cast(old.Y(), "*ast.LocalIdent"))))) ==> result != nil
+//@   ensures typeis(old.Y(), "*ast.GlobalIdent") && cast(old.Y(), "*ast.GlobalIdent") != nil && !old(mapdom(fgen.gen.new.globals, globalIdent(deref(cast(old.Y(), "*ast.GlobalIdent"))))) ==> result != nil
+//@ func (*funcGen).irLShrInst
+//@   props C04 C05
+//@   partial
+//@   requires fgen != nil && fgen.gen != nil && fgen.f != nil && fgen.f.GlobalID >= 0 && old != nil && typeis(new, "*ir.InstLShr") && cast(new, "*ir.InstLShr") != nil
+//@   assigns anything
+//@   keeps ir.InstLShr.X, ir.InstLShr.Y, funcGen.locals, mapof(funcGen.locals), funcGen.gen, funcGen.f, generator.new, newIndex.globals, mapof(newIndex.globals), ir.GlobalIdent.GlobalID
+//@   ensures result == nil && typeis(old.X().Val(), "*ast.LocalIdent") && cast(old.X().Val(), "*ast.LocalIdent") != nil ==> cast(new, "*ir.InstLShr").X == old(fgen.locals[localIdent(deref(cast(old.X().Val(), "*ast.LocalIdent")))])
+//@   ensures result == nil && typeis(old.X().Val(), "*ast.GlobalIdent") && cast(old.X().Val(), "*ast.GlobalIdent") != nil ==> cast(new, "*ir.InstLShr").X == old(fgen.gen.new.globals[globalIdent(deref(cast(old.X().Val(), "*ast.GlobalIdent")))])
+//@   ensures typeis(old.X().Val(), "*ast.LocalIdent") && cast(old.X().Val(), "*ast.LocalIdent") != nil && !old(mapdom(fgen.locals, localIdent(deref(cast(old.X().Val(), "*ast.LocalIdent"))))) ==> result != nil
+//@   ensures typeis(old.X().Val(), "*ast.GlobalIdent") && cast(old.X().Val(), "*ast.GlobalIdent") != nil && !old(mapdom(fgen.gen.new.globals, globalIdent(deref(cast(old.X().Val(), "*ast.GlobalIdent"))))) ==> result != nil
+//@   ensures result == nil && typeis(old.Y(), "*ast.LocalIdent") && cast(old.Y(), "*ast.LocalIdent") != nil ==> cast(new, "*ir.InstLShr").Y == old(fgen.locals[localIdent(deref(cast(old.Y(), "*ast.LocalIdent")))])
+//@   ensures result == nil && typeis(old.Y(), "*ast.GlobalIdent") && cast(old.Y(), "*ast.GlobalIdent") != nil ==> cast(new, "*ir.InstLShr").Y == old(fgen.gen.new.globals[globalIdent(deref(cast(old.Y(), "*ast.GlobalIdent")))])
+//@   ensures typeis(old.Y(), "*ast.LocalIdent") && cast(old.Y(), "*ast.LocalIdent") != nil && !old(mapdom(fgen.locals, localIdent(deref(cast(old.Y(), "*ast.LocalIdent"))))) ==> result != nil
+//@   ensures typeis(old.Y(), "*ast.GlobalIdent") && cast(old.Y(), "*ast.GlobalIdent") != nil && !old(mapdom(fgen.gen.new.globals, globalIdent(deref(cast(old.Y(), "*ast.GlobalIdent"))))) ==> result != nil
+//@ func (*funcGen).irAShrInst
+//@   props C04 C05
+//@   partial
+//@   requires fgen != nil && fgen.gen != nil && fgen.f != nil && fgen.f.GlobalID >= 0 && old != nil && typeis(new, "*ir.InstAShr") && cast(new, "*ir.InstAShr") != nil
+//@   assigns anything
+//@   keeps ir.InstAShr.X, ir.InstAShr.Y, funcGen.locals, mapof(funcGen.locals), funcGen.gen, funcGen.f, generator.new, newIndex.globals, mapof(newIndex.globals), ir.GlobalIdent.GlobalID
+//@   ensures result == nil && typeis(old.X().Val(), "*ast.LocalIdent") && cast(old.X().Val(), "*ast.LocalIdent") != nil ==> cast(new, "*ir.InstAShr").X == old(fgen.locals[localIdent(deref(cast(old.X().Val(), "*ast.LocalIdent")))])
+//@   ensures result == nil && typeis(old.X().Val(), "*ast.GlobalIdent") && cast(old.X().Val(), "*ast.GlobalIdent") != nil ==> cast(new, "*ir.InstAShr").X == old(fgen.gen.new.globals[globalIdent(deref(cast(old.X().Val(), "*ast.GlobalIdent")))])
+//@   ensures typeis(old.X().Val(), "*ast.LocalIdent") && cast(old.X().Val(), "*ast.LocalIdent") != nil && !old(mapdom(fgen.locals, localIdent(deref(cast(old.X().Val(), "*ast.LocalIdent"))))) ==> result != nil
+//@   ensures typeis(old.X().Val(), "*ast.GlobalIdent") && cast(old.X().Val(), "*ast.GlobalIdent") != nil && !old(mapdom(fgen.gen.new.globals, globalIdent(deref(cast(old.X().Val(), "*ast.GlobalIdent"))))) ==> result != nil
+//@   ensures result == nil && typeis(old.Y(), "*ast.LocalIdent") && cast(old.Y(), "*ast.LocalIdent") != nil ==> cast(new, "*ir.InstAShr").Y == old(fgen.locals[localIdent(deref(cast(old.Y(), "*ast.LocalIdent")))])
+//@   ensures result == nil && typeis(old.Y(), "*ast.GlobalIdent") && cast(old.Y(), "*ast.GlobalIdent") != nil ==> cast(new, "*ir.InstAShr").Y == old(fgen.gen.new.globals[globalIdent(deref(cast(old.Y(), "*ast.GlobalIdent")))])
+//@   ensures typeis(old.Y(), "*ast.LocalIdent") && cast(old.Y(), "*ast.LocalIdent") != nil && !old(mapdom(fgen.locals, localIdent(deref(cast(old.Y(), "*ast.LocalIdent"))))) ==> result != nil
+//@   ensures typeis(old.Y(), "*ast.GlobalIdent") && cast(old.Y(), "*ast.GlobalIdent") != nil && !old(mapdom(fgen.gen.new.globals, globalIdent(deref(cast(old.Y(), "*ast.GlobalIdent"))))) ==> result != nil
+//@ func (*funcGen).irAndInst
+//@   props C04 C05
+//@   partial
+//@   requires fgen != nil && fgen.gen != nil && fgen.f != nil && fgen.f.GlobalID >= 0 && old != nil && typeis(new, "*ir.InstAnd") && cast(new, "*ir.InstAnd") != nil
+//@   assigns anything
+//@   keeps ir.InstAnd.X, ir.InstAnd.Y, funcGen.locals, mapof(funcGen.locals), funcGen.gen, funcGen.f, generator.new, newIndex.globals, mapof(newIndex.globals), ir.GlobalIdent.GlobalID
+//@   ensures result == nil && typeis(old.X().Val(), "*ast.LocalIdent") && cast(old.X().Val(), "*ast.LocalIdent") != nil ==> cast(new, "*ir.InstAnd").X == old(fgen.locals[localIdent(deref(cast(old.X().Val(), "*ast.LocalIdent")))])
+//@   ensures result == nil && typeis(old.X().Val(), "*ast.GlobalIdent") && cast(old.X().Val(), "*ast.GlobalIdent") != nil ==> cast(new, "*ir.InstAnd").X == old(fgen.gen.new.globals[globalIdent(deref(cast(old.X().Val(), "*ast.GlobalIdent")))])
+//@   ensures typeis(old.X().Val(), "*ast.LocalIdent") && cast(old.X().Val(), "*ast.LocalIdent") != nil && !old(mapdom(fgen.locals, localIdent(deref(cast(old.X().Val(), "*ast.LocalIdent"))))) ==> result != nil
+//@   ensures typeis(old.X().Val(), "*ast.GlobalIdent") && cast(old.X().Val(), "*ast.GlobalIdent") != nil && !old(mapdom(fgen.gen.new.globals, globalIdent(deref(cast(old.X().Val(), "*ast.GlobalIdent"))))) ==> result != nil
+//@   ensures result == nil && typeis(old.Y(), "*ast.LocalIdent") && cast(old.Y(), "*ast.LocalIdent") != nil ==> cast(new, "*ir.InstAnd").Y == old(fgen.locals[localIdent(deref(cast(old.Y(), "*ast.LocalIdent")))])
+//@   ensures result == nil && typeis(old.Y(), "*ast.GlobalIdent") && cast(old.Y(), "*ast.GlobalIdent") != nil ==> cast(new, "*ir.InstAnd").Y == old(fgen.gen.new.globals[globalIdent(deref(cast(old.Y(), "*ast.GlobalIdent")))])
+//@   ensures typeis(old.Y(), "*ast.LocalIdent") && cast(old.Y(), "*ast.LocalIdent") != nil && !old(mapdom(fgen.locals, localIdent(deref(cast(old.Y(), "*ast.LocalIdent"))))) ==> result != nil
+//@   ensures typeis(old.Y(), "*ast.GlobalIdent") && cast(old.Y(), "*ast.GlobalIdent") != nil && !old(mapdom(fgen.gen.new.globals, globalIdent(deref(cast(old.Y(), "*ast.GlobalIdent"))))) ==> result != nil
+//@ func (*funcGen).irOrInst
+//@   props C04 C05
+//@   partial
+//@   requires fgen != nil && fgen.gen != nil && fgen.f != nil && fgen.f.GlobalID >= 0 && old != nil && typeis(new, "*ir.InstOr") && cast(new, "*ir.InstOr") != nil
+//@   assigns anything
+//@   keeps ir.InstOr.X, ir.InstOr.Y, funcGen.locals, mapof(funcGen.locals), funcGen.gen, funcGen.f, generator.new, newIndex.globals, mapof(newIndex.globals), ir.GlobalIdent.GlobalID
+//@   ensures result == nil && typeis(old.X().Val(), "*ast.LocalIdent") && cast(old.X().Val(), "*ast.LocalIdent") != nil ==> cast(new, "*ir.InstOr").X == old(fgen.locals[localIdent(deref(cast(old.X().Val(), "*ast.LocalIdent")))])
+//@   ensures result == nil && typeis(old.X().Val(), "*ast.GlobalIdent") && cast(old.X().Val(), "*ast.GlobalIdent") != nil ==> cast(new, "*ir.InstOr").X == old(fgen.gen.new.globals[globalIdent(deref(cast(old.X().Val(), "*ast.GlobalIdent")))])
+//@   ensures typeis(old.X().Val(), "*ast.LocalIdent") && cast(old.X().Val(), "*ast.LocalIdent") != nil && !old(mapdom(fgen.locals, localIdent(deref(cast(old.X().Val(), "*ast.LocalIdent"))))) ==> result != nil
+//@   ensures typeis(old.X().Val(), "*ast.GlobalIdent") && cast(old.X().Val(), "*ast.GlobalIdent") != nil && !old(mapdom(fgen.gen.new.globals, globalIdent(deref(cast(old.X().Val(), "*ast.GlobalIdent"))))) ==> result != nil
+//@   ensures result == nil && typeis(old.Y(), "*ast.LocalIdent") && cast(old.Y(), "*ast.LocalIdent") != nil ==> cast(new, "*ir.InstOr").Y == old(fgen.locals[localIdent(deref(cast(old.Y(), "*ast.LocalIdent")))])
+//@   ensures result == nil && typeis(old.Y(), "*ast.GlobalIdent") && cast(old.Y(), "*ast.GlobalIdent") != nil ==> cast(new, "*ir.InstOr").Y == old(fgen.gen.new.globals[globalIdent(deref(cast(old.Y(), "*ast.GlobalIdent")))])
+//@   ensures typeis(old.Y(), "*ast.LocalIdent") && cast(old.Y(), "*ast.LocalIdent") != nil && !old(mapdom(fgen.locals, localIdent(deref(cast(old.Y(), "*ast.LocalIdent"))))) ==> result != nil
+//@   ensures typeis(old.Y(), "*ast.GlobalIdent") && cast(old.Y(), "*ast.GlobalIdent") != nil && !old(mapdom(fgen.gen.new.globals, globalIdent(deref(cast(old.Y(), "*ast.GlobalIdent"))))) ==> result != nil
+//@ func (*funcGen).irXorInst
+//@   props C04 C05
+//@   partial
+//@   requires fgen != nil && fgen.gen != nil && fgen.f != nil && fgen.f.GlobalID >= 0 && old != nil && typeis(new, "*ir.InstXor") && cast(new, "*ir.InstXor") != nil
+//@   assigns anything
+//@   keeps ir.InstXor.X, ir.InstXor.Y, funcGen.locals, mapof(funcGen.locals), funcGen.gen, funcGen.f, generator.new, newIndex.globals, mapof(newIndex.globals), ir.GlobalIdent.GlobalID
+//@   ensures result == nil && typeis(old.X().Val(), "*ast.LocalIdent") && cast(old.X().Val(), "*ast.LocalIdent") != nil ==> cast(new, "*ir.InstXor").X == old(fgen.locals[localIdent(deref(cast(old.X().Val(), "*ast.LocalIdent")))])
+//@   ensures result == nil && typeis(old.X().Val(), "*ast.GlobalIdent") && cast(old.X().Val(), "*ast.GlobalIdent") != nil ==> cast(new, "*ir.InstXor").X == old(fgen.gen.new.globals[globalIdent(deref(cast(old.X().Val(), "*ast.GlobalIdent")))])
+//@   ensures typeis(old.X().Val(), "*ast.LocalIdent") && cast(old.X().Val(), "*ast.LocalIdent") != nil && !old(mapdom(fgen.locals, localIdent(deref(cast(old.X().Val(), "*ast.LocalIdent"))))) ==> result != nil
+//@   ensures typeis(old.X().Val(), "*ast.GlobalIdent") && cast(old.X().Val(), "*ast.GlobalIdent") != nil && !old(mapdom(fgen.gen.new.globals, globalIdent(deref(cast(old.X().Val(), "*ast.GlobalIdent"))))) ==> result != nil
+//@   ensures result == nil && typeis(old.Y(), "*ast.LocalIdent") && cast(old.Y(), "*ast.LocalIdent") != nil ==> cast(new, "*ir.InstXor").Y == old(fgen.locals[localIdent(deref(cast(old.Y(), "*ast.LocalIdent")))])
+//@   ensures result == nil && typeis(old.Y(), "*ast.GlobalIdent") && cast(old.Y(), "*ast.GlobalIdent") != nil ==> cast(new, "*ir.InstXor").Y == old(fgen.gen.new.globals[globalIdent(deref(cast(old.Y(), "*ast.GlobalIdent")))])
+//@   ensures typeis(old.Y(), "*ast.LocalIdent") && cast(old.Y(), "*ast.LocalIdent") != nil && !old(mapdom(fgen.locals, localIdent(deref(cast(old.Y(), "*ast.LocalIdent"))))) ==> result != nil
+//@   ensures typeis(old.Y(), "*ast.GlobalIdent") && cast(old.Y(), "*ast.GlobalIdent") != nil && !old(mapdom(fgen.gen.new.globals, globalIdent(deref(cast(old.Y(), "*ast.GlobalIdent"))))) ==> result != nil
+//@ func (*funcGen).irTruncInst
+//@   props C04 C05
+//@   partial
+//@   requires fgen != nil && fgen.gen != nil && fgen.f != nil && fgen.f.GlobalID >= 0 && old != nil && typeis(new, "*ir.InstTrunc") && cast(new, "*ir.InstTrunc") != nil
+//@   assigns anything
+//@   keeps ir.InstTrunc.From, funcGen.locals, mapof(funcGen.locals), funcGen.gen, funcGen.f, generator.new, newIndex.globals, mapof(newIndex.globals), ir.GlobalIdent.GlobalID
+//@   ensures result == nil && typeis(old.From().Val(), "*ast.LocalIdent") && cast(old.From().Val(), "*ast.LocalIdent") != nil ==> cast(new, "*ir.InstTrunc").From == old(fgen.locals[localIdent(deref(cast(old.From().Val(), "*ast.LocalIdent")))])
+//@   ensures result == nil && typeis(old.From().Val(), "*ast.GlobalIdent") && cast(old.From().Val(), "*ast.GlobalIdent") != nil ==> cast(new, "*ir.InstTrunc").From == old(fgen.gen.new.globals[globalIdent(deref(cast(old.From().Val(), "*ast.GlobalIdent")))])
+//@   ensures typeis(old.From().Val(), "*ast.LocalIdent") && cast(old.From().Val(), "*ast.LocalIdent") != nil && !old(mapdom(fgen.locals, localIdent(deref(cast(old.From().Val(), "*ast.LocalIdent"))))) ==> result != nil
+//@   ensures typeis(old.From().Val(), "*ast.GlobalIdent") && cast(old.From().Val(), "*ast.GlobalIdent") != nil && !old(mapdom(fgen.gen.new.globals, globalIdent(deref(cast(old.From().Val(), "*ast.GlobalIdent"))))) ==> result != nil
+//@ func (*funcGen).irZExtInst
+//@   props C04 C05
+//@   partial
+//@   requires fgen != nil && fgen.gen != nil && fgen.f != nil && fgen.f.GlobalID >= 0 && old != nil && typeis(new, "*ir.InstZExt") && cast(new, "*ir.InstZExt") != nil
+//@   assigns anything
+//@   keeps ir.InstZExt.From, funcGen.locals, mapof(funcGen.locals), funcGen.gen, funcGen.f, generator.new, newIndex.globals, mapof(newIndex.globals), ir.GlobalIdent.GlobalID
+//@   ensures result == nil && typeis(old.From().Val(), "*ast.LocalIdent") && cast(old.From().Val(), "*ast.LocalIdent") != nil ==> cast(new, "*ir.InstZExt").From == old(fgen.locals[localIdent(deref(cast(old.From().Val(), "*ast.LocalIdent")))])
+//@   ensures result == nil && typeis(old.From().Val(), "*ast.GlobalIdent") && cast(old.From().Val(), "*ast.GlobalIdent") != nil ==> cast(new, "*ir.InstZExt").From == old(fgen.gen.new.globals[globalIdent(deref(cast(old.From().Val(), "*ast.GlobalIdent")))])
+//@   ensures typeis(old.From().Val(), "*ast.LocalIdent") && cast(old.From().Val(), "*ast.LocalIdent") != nil && !old(mapdom(fgen.locals, localIdent(deref(cast(old.From().Val(), "*ast.LocalIdent"))))) ==> result != nil
+//@   ensures typeis(old.From().Val(), "*ast.GlobalIdent") && cast(old.From().Val(), "*ast.GlobalIdent") != nil && !old(mapdom(fgen.gen.new.globals, globalIdent(deref(cast(old.From().Val(), "*ast.GlobalIdent"))))) ==> result != nil
+//@ func (*funcGen).irSExtInst
+//@   props C04 C05
+//@   partial
+//@   requires fgen != nil && fgen.gen != nil && fgen.f != nil && fgen.f.GlobalID >= 0 && old != nil && typeis(new, "*ir.InstSExt") && cast(new, "*ir.InstSExt") != nil
+//@   assigns anything
+//@   keeps ir.InstSExt.From, funcGen.locals, mapof(funcGen.locals), funcGen.gen, funcGen.f, generator.new, newIndex.globals, mapof(newIndex.globals), ir.GlobalIdent.GlobalID
+//@   ensures result == nil && typeis(old.From().Val(), "*ast.LocalIdent") && cast(old.From().Val(), "*ast.LocalIdent") != nil ==> cast(new, "*ir.InstSExt").From == old(fgen.locals[localIdent(deref(cast(old.From().Val(), "*ast.LocalIdent")))])
+//@   ensures result == nil && typeis(old.From().Val(), "*ast.GlobalIdent") && cast(old.From().Val(), "*ast.GlobalIdent") != nil ==> cast(new, "*ir.InstSExt").From == old(fgen.gen.new.globals[globalIdent(deref(cast(old.From().Val(), "*ast.GlobalIdent")))])
+//@   ensures typeis(old.From().Val(), "*ast.LocalIdent") && cast(old.From().Val(), "*ast.LocalIdent") != nil && !old(mapdom(fgen.locals, localIdent(deref(cast(old.From().Val(), "*ast.LocalIdent"))))) ==> result != nil
+//@   ensures typeis(old.From().Val(), "*ast.GlobalIdent") && cast(old.From().Val(), "*ast.GlobalIdent") != nil && !old(mapdom(fgen.gen.new.globals, globalIdent(deref(cast(old.From().Val(), "*ast.GlobalIdent"))))) ==> result != nil
+//@ func (*funcGen).irFPTruncInst
+//@   props C04 C05
+//@   partial
+//@   requires fgen != nil && fgen.gen != nil && fgen.f != nil && fgen.f.GlobalID >= 0 && old != nil && typeis(new, "*ir.InstFPTrunc") && cast(new, "*ir.InstFPTrunc") != nil
+//@   assigns anything
+//@   keeps ir.InstFPTrunc.From, funcGen.locals, mapof(funcGen.locals), funcGen.gen, funcGen.f, generator.new, newIndex.globals, mapof(newIndex.globals), ir.GlobalIdent.GlobalID
+//@   ensures result == nil && typeis(old.From().Val(), "*ast.LocalIdent") && cast(old.From().Val(), "*ast.LocalIdent") != nil ==> cast(new, "*ir.InstFPTrunc").From == old(fgen.locals[localIdent(deref(cast(old.From().Val(), "*ast.LocalIdent")))])
+//@   ensures result == nil && typeis(old.From().Val(), "*ast.GlobalIdent") && cast(old.From().Val(), "*ast.GlobalIdent") != nil ==> cast(new, "*ir.InstFPTrunc").From == old(fgen.gen.new.globals[globalIdent(deref(cast(old.From().Val(), "*ast.GlobalIdent")))])
+//@   ensures typeis(old.From().Val(), "*ast.LocalIdent") && cast(old.From().Val(), "*ast.LocalIdent") != nil && !old(mapdom(fgen.locals, localIdent(deref(cast(old.From().Val(), "*ast.LocalIdent"))))) ==> result != nil
+//@   ensures typeis(old.From().Val(), "*ast.GlobalIdent") && cast(old.From().Val(), "*ast.GlobalIdent") != nil && !old(mapdom(fgen.gen.new.globals, globalIdent(deref(cast(old.From().Val(), "*ast.GlobalIdent"))))) ==> result != nil
+//@ func (*funcGen).irFPExtInst
+//@   props C04 C05
+//@   partial
+//@   requires fgen != nil && fgen.gen != nil && fgen.f != nil && fgen.f.GlobalID >= 0 && old != nil && typeis(new, "*ir.InstFPExt") && cast(new, "*ir.InstFPExt") != nil
+//@   assigns anything
+//@   keeps ir.InstFPExt.From, funcGen.locals, mapof(funcGen.locals), funcGen.gen, funcGen.f, generator.new, newIndex.globals, mapof(newIndex.globals), ir.GlobalIdent.GlobalID
+//@   ensures result == nil && typeis(old.From().Val(), "*ast.LocalIdent") && cast(old.From().Val(), "*ast.LocalIdent") != nil ==> cast(new, "*ir.InstFPExt").From == old(fgen.locals[localIdent(deref(cast(old.From().Val(), "*ast.LocalIdent")))])
+//@   ensures result == nil && typeis(old.From().Val(), "*ast.GlobalIdent") && cast(old.From().Val(), "*ast.GlobalIdent") != nil ==> cast(new, "*ir.InstFPExt").From == old(fgen.gen.new.globals[globalIdent(deref(cast(old.From().Val(), "*ast.GlobalIdent")))])
+//@   ensures typeis(old.From().Val(), "*ast.LocalIdent") && cast(old.From().Val(), "*ast.LocalIdent") != nil && !old(mapdom(fgen.locals, localIdent(deref(cast(old.From().Val(), "*ast.LocalIdent"))))) ==> result != nil
+//@   ensures typeis(old.From().Val(), "*ast.GlobalIdent") && cast(old.From().Val(), "*ast.GlobalIdent") != nil && !old(mapdom(fgen.gen.new.globals, globalIdent(deref(cast(old.From().Val(), "*ast.GlobalIdent"))))) ==> result != nil
+//@ func (*funcGen).irFPToUIInst
+//@   props C04 C05
+//@   partial
+//@   requires fgen != nil && fgen.gen != nil && fgen.f != nil && fgen.f.GlobalID >= 0 && old != nil && typeis(new, "*ir.InstFPToUI") && cast(new, "*ir.InstFPToUI") != nil
+//@   assigns anything
+//@   keeps ir.InstFPToUI.From, funcGen.locals, mapof(funcGen.locals), funcGen.gen, funcGen.f, generator.new, newIndex.globals, mapof(newIndex.globals), ir.GlobalIdent.GlobalID
+//@   ensures result == nil && typeis(old.From().Val(), "*ast.LocalIdent") && cast(old.From().Val(), "*ast.LocalIdent") != nil ==> cast(new, "*ir.InstFPToUI").From == old(fgen.locals[localIdent(deref(cast(old.From().Val(), "*ast.LocalIdent")))])
+//@   ensures result == nil && typeis(old.From().Val(), "*ast.GlobalIdent") && cast(old.From().Val(), "*ast.GlobalIdent") != nil ==> cast(new, "*ir.InstFPToUI").From == old(fgen.gen.new.globals[globalIdent(deref(cast(old.From().Val(), "*ast.GlobalIdent")))])
+//@   ensures typeis(old.From().Val(), "*ast.LocalIdent") && cast(old.From().Val(), "*ast.LocalIdent") != nil && !old(mapdom(fgen.locals, localIdent(deref(cast(old.From().Val(), "*ast.LocalIdent"))))) ==> result != nil
+//@   ensures typeis(old.From().Val(), "*ast.GlobalIdent") && cast(old.From().Val(), "*ast.GlobalIdent") != nil && !old(mapdom(fgen.gen.new.globals, globalIdent(deref(cast(old.From().Val(), "*ast.GlobalIdent"))))) ==> result != nil
+//@ func (*funcGen).irFPToSIInst
+//@   props C04 C05
+//@   partial
+//@   requires fgen != nil && fgen.gen != nil && fgen.f != nil && fgen.f.GlobalID >= 0 && old != nil && typeis(new, "*ir.InstFPToSI") && cast(new, "*ir.InstFPToSI") != nil
+//@   assigns anything
+//@   keeps ir.InstFPToSI.From, funcGen.locals, mapof(funcGen.locals), funcGen.gen, funcGen.f, generator.new, newIndex.globals, mapof(newIndex.globals), ir.GlobalIdent.GlobalID
+//@   ensures result == nil && typeis(old.From().Val(), "*ast.LocalIdent") && cast(old.From().Val(), "*ast.LocalIdent") != nil ==> cast(new, "*ir.InstFPToSI").From == old(fgen.locals[localIdent(deref(cast(old.From().Val(), "*ast.LocalIdent")))])
+//@   ensures result == nil && typeis(old.From().Val(), "*ast.GlobalIdent") && cast(old.From().Val(), "*ast.GlobalIdent") != nil ==> cast(new, "*ir.InstFPToSI").From == old(fgen.gen.new.globals[globalIdent(deref(cast(old.From().Val(), "*ast.GlobalIdent")))])
+//@   ensures typeis(old.From().Val(), "*ast.LocalIdent") && cast(old.From().Val(), "*ast.LocalIdent") != nil && !old(mapdom(fgen.locals, localIdent(deref(cast(old.From().Val(), "*ast.LocalIdent"))))) ==> result != nil
+//@   ensures typeis(old.From().Val(), "*ast.GlobalIdent") && cast(old.From().Val(), "*ast.GlobalIdent") != nil && !old(mapdom(fgen.gen.new.globals, globalIdent(deref(cast(old.From().Val(), "*ast.GlobalIdent"))))) ==> result != nil
+//@ func (*funcGen).irUIToFPInst
+//@   props C04 C05
+//@   partial
+//@   requires fgen != nil && fgen.gen != nil && fgen.f != nil && fgen.f.GlobalID >= 0 && old != nil && typeis(new, "*ir.InstUIToFP") && cast(new, "*ir.InstUIToFP") != nil
+//@   assigns anything
+//@   keeps ir.InstUIToFP.From, funcGen.locals, mapof(funcGen.locals), funcGen.gen, funcGen.f, generator.new, newIndex.globals, mapof(newIndex.globals), ir.GlobalIdent.GlobalID
+//@   ensures result == nil && typeis(old.From().Val(), "*ast.LocalIdent") && cast(old.From().Val(), "*ast.LocalIdent") != nil ==> cast(new, "*ir.InstUIToFP").From == old(fgen.locals[localIdent(deref(cast(old.From().Val(), "*ast.LocalIdent")))])
+//@   ensures result == nil && typeis(old.From().Val(), "*ast.GlobalIdent") && cast(old.From().Val(), "*ast.GlobalIdent") != nil ==> cast(new, "*ir.InstUIToFP").From == old(fgen.gen.new.globals[globalIdent(deref(cast(old.From().Val(), "*ast.GlobalIdent")))])
+//@   ensures typeis(old.From().Val(), "*ast.LocalIdent") && cast(old.From().Val(), "*ast.LocalIdent") != nil && !old(mapdom(fgen.locals, localIdent(deref(cast(old.From().Val(), "*ast.LocalIdent"))))) ==> result != nil
+//@   ensures typeis(old.From().Val(), "*ast.GlobalIdent") && cast(old.From().Val(), "*ast.GlobalIdent") != nil && !old(mapdom(fgen.gen.new.globals, globalIdent(deref(cast(old.From().Val(), "*ast.GlobalIdent"))))) ==> result != nil
+//@ func (*funcGen).irSIToFPInst
+//@   props C04 C05
+//@   partial
+//@   requires fgen != nil && fgen.gen != nil && fgen.f != nil && fgen.f.GlobalID >= 0 && old != nil && typeis(new, "*ir.InstSIToFP") && cast(new, "*ir.InstSIToFP") != nil
+//@   assigns anything
+//@   keeps ir.InstSIToFP.From, funcGen.locals, mapof(funcGen.locals), funcGen.gen, funcGen.f, generator.new, newIndex.globals, mapof(newIndex.globals), ir.GlobalIdent.GlobalID
+//@   ensures result == nil && typeis(old.From().Val(), "*ast.LocalIdent") && cast(old.From().Val(), "*ast.LocalIdent") != nil ==> cast(new, "*ir.InstSIToFP").From == old(fgen.locals[localIdent(deref(cast(old.From().Val(), "*ast.LocalIdent")))])
+//@   ensures result == nil && typeis(old.From().Val(), "*ast.GlobalIdent") && cast(old.From().Val(), "*ast.GlobalIdent") != nil ==> cast(new, "*ir.InstSIToFP").From == old(fgen.gen.new.globals[globalIdent(deref(cast(old.From().Val(), "*ast.GlobalIdent")))])
+//@   ensures typeis(old.From().Val(), "*ast.LocalIdent") && cast(old.From().Val(), "*ast.LocalIdent") != nil && !old(mapdom(fgen.locals, localIdent(deref(cast(old.From().Val(), "*ast.LocalIdent"))))) ==> result != nil
+//@   ensures typeis(old.From().Val(), "*ast.GlobalIdent") && cast(old.From().Val(), "*ast.GlobalIdent") != nil && !old(mapdom(fgen.gen.new.globals, globalIdent(deref(cast(old.From().Val(), "*ast.GlobalIdent"))))) ==> result != nil
+//@ func (*funcGen).irPtrToIntInst
+//@   props C04 C05
+//@   partial
+//@   requires fgen != nil && fgen.gen != nil && fgen.f != nil && fgen.f.GlobalID >= 0 && old != nil && typeis(new, "*ir.InstPtrToInt") && cast(new, "*ir.InstPtrToInt") != nil
+//@   assigns anything
+//@   keeps ir.InstPtrToInt.From, funcGen.locals, mapof(funcGen.locals), funcGen.gen, funcGen.f, generator.new, newIndex.globals, mapof(newIndex.globals), ir.GlobalIdent.GlobalID
+//@   ensures result == nil && typeis(old.From().Val(), "*ast.LocalIdent") && cast(old.From().Val(), "*ast.LocalIdent") != nil ==> cast(new, "*ir.InstPtrToInt").From == old(fgen.locals[localIdent(deref(cast(old.From().Val(), "*ast.LocalIdent")))])
+//@   ensures result == nil && typeis(old.From().Val(), "*ast.GlobalIdent") && cast(old.From().Val(), "*ast.GlobalIdent") != nil ==> cast(new, "*ir.InstPtrToInt").From == old(fgen.gen.new.globals[globalIdent(deref(cast(old.From().Val(), "*ast.GlobalIdent")))])
+//@   ensures typeis(old.From().Val(), "*ast.LocalIdent") && cast(old.From().Val(), "*ast.LocalIdent") != nil && !old(mapdom(fgen.locals, localIdent(deref(cast(old.From().Val(), "*ast.LocalIdent"))))) ==> result != nil
+//@   ensures typeis(old.From().Val(), "*ast.GlobalIdent") && cast(old.From().Val(), "*ast.GlobalIdent") != nil && !old(mapdom(fgen.gen.new.globals, globalIdent(deref(cast(old.From().Val(), "*ast.GlobalIdent"))))) ==> result != nil
+//@ func (*funcGen).irIntToPtrInst
+//@   props C04 C05
+//@   partial
+//@   requires fgen != nil && fgen.gen != nil && fgen.f != nil && fgen.f.GlobalID >= 0 && old != nil && typeis(new, "*ir.InstIntToPtr") && cast(new, "*ir.InstIntToPtr") != nil
+//@   assigns anything
+//@   keeps ir.InstIntToPtr.From, funcGen.locals, mapof(funcGen.locals), funcGen.gen, funcGen.f, generator.new, newIndex.globals, mapof(newIndex.globals), ir.GlobalIdent.GlobalID
+//@   ensures result == nil && typeis(old.From().Val(), "*ast.LocalIdent") && cast(old.From().Val(), "*ast.LocalIdent") != nil ==> cast(new, "*ir.InstIntToPtr").From == old(fgen.locals[localIdent(deref(cast(old.From().Val(), "*ast.LocalIdent")))])
+//@   ensures result == nil && typeis(old.From().Val(), "*ast.GlobalIdent") && cast(old.From().Val(), "*ast.GlobalIdent") != nil ==> cast(new, "*ir.InstIntToPtr").From == old(fgen.gen.new.globals[globalIdent(deref(cast(old.From().Val(), "*ast.GlobalIdent")))])
+//@   ensures typeis(old.From().Val(), "*ast.LocalIdent") && cast(old.From().Val(), "*ast.LocalIdent") != nil && !old(mapdom(fgen.locals, localIdent(deref(cast(old.From().Val(), "*ast.LocalIdent"))))) ==> result != nil
+//@   ensures typeis(old.From().Val(), "*ast.GlobalIdent") && cast(old.From().Val(), "*ast.GlobalIdent") != nil && !old(mapdom(fgen.gen.new.globals, globalIdent(deref(cast(old.From().Val(), "*ast.GlobalIdent"))))) ==> result != nil
+//@ func (*funcGen).irBitCastInst
+//@   props C04 C05
+//@   partial
+//@   requires fgen != nil && fgen.gen != nil && fgen.f != nil && fgen.f.GlobalID >= 0 && old != nil && typeis(new, "*ir.InstBitCast") && cast(new, "*ir.InstBitCast") != nil
+//@   assigns anything
+//@   keeps ir.InstBitCast.From, funcGen.locals, mapof(funcGen.locals), funcGen.gen, funcGen.f, generator.new, newIndex.globals, mapof(newIndex.globals), ir.GlobalIdent.GlobalID
+//@   ensures result == nil && typeis(old.From().Val(), "*ast.LocalIdent") && cast(old.From().Val(), "*ast.LocalIdent") != nil ==> cast(new, "*ir.InstBitCast").From == old(fgen.locals[localIdent(deref(cast(old.From().Val(), "*ast.LocalIdent")))])
+//@   ensures result == nil && typeis(old.From().Val(), "*ast.GlobalIdent") && cast(old.From().Val(), "*ast.GlobalIdent") != nil ==> cast(new, "*ir.InstBitCast").From == old(fgen.gen.new.globals[globalIdent(deref(cast(old.From().Val(), "*ast.GlobalIdent")))])
+//@   ensures typeis(old.From().Val(), "*ast.LocalIdent") && cast(old.From().Val(), "*ast.LocalIdent") != nil && !old(mapdom(fgen.locals, localIdent(deref(cast(old.From().Val(), "*ast.LocalIdent"))))) ==> result != nil
+//@   ensures typeis(old.From().Val(), "*ast.GlobalIdent") && cast(old.From().Val(), "*ast.GlobalIdent") != nil && !old(mapdom(fgen.gen.new.globals, globalIdent(deref(cast(old.From().Val(), "*ast.GlobalIdent"))))) ==> result != nil
+//@ func (*funcGen).irAddrSpaceCastInst
+//@   props C04 C05
+//@   partial
+//@   requires fgen != nil && fgen.gen != nil && fgen.f != nil && fgen.f.GlobalID >= 0 && old != nil && typeis(new, "*ir.InstAddrSpaceCast") && cast(new, "*ir.InstAddrSpaceCast") != nil
+//@   assigns anything
+//@   keeps ir.InstAddrSpaceCast.From, funcGen.locals, mapof(funcGen.locals), funcGen.gen, funcGen.f, generator.new, newIndex.globals, mapof(newIndex.globals), ir.GlobalIdent.GlobalID
+//@   ensures result == nil && typeis(old.From().Val(), "*ast.LocalIdent") && cast(old.From().Val(), "*ast.LocalIdent") != nil ==> cast(new, "*ir.InstAddrSpaceCast").From == old(fgen.locals[localIdent(deref(cast(old.From().Val(), "*ast.LocalIdent")))])
+//@   ensures result == nil && typeis(old.From().Val(), "*ast.GlobalIdent") && cast(old.From().Val(), "*ast.GlobalIdent") != nil ==> cast(new, "*ir.InstAddrSpaceCast").From == old(fgen.gen.new.globals[globalIdent(deref(cast(old.From().Val(), "*ast.GlobalIdent")))])
+//@   ensures typeis(old.From().Val(), "*ast.LocalIdent") && cast(old.From().Val(), "*ast.LocalIdent") != nil && !old(mapdom(fgen.locals, localIdent(deref(cast(old.From().Val(), "*ast.LocalIdent"))))) ==> result != nil
+//@   ensures typeis(old.From().Val(), "*ast.GlobalIdent") && cast(old.From().Val(), "*ast.GlobalIdent") != nil && !old(mapdom(fgen.gen.new.globals, globalIdent(deref(cast(old.From().Val(), "*ast.GlobalIdent"))))) ==> result != nil
+//@ func (*funcGen).irAllocaInst
+//@   props C04 C05
+//@   partial
+//@   requires fgen != nil && fgen.gen != nil && fgen.f != nil && fgen.f.GlobalID >= 0 && old != nil && typeis(new, "*ir.InstAlloca") && cast(new, "*ir.InstAlloca") != nil
+//@   assigns anything
+//@   keeps ir.InstAlloca.NElems, funcGen.locals, mapof(funcGen.locals), funcGen.gen, funcGen.f, generator.new, newIndex.globals, mapof(newIndex.globals), ir.GlobalIdent.GlobalID
+//@   ensures result == nil && res1(old.NElems()) && typeis(res0(old.NElems()).Val(), "*ast.LocalIdent") && cast(res0(old.NElems()).Val(), "*ast.LocalIdent") != nil ==> cast(new, "*ir.InstAlloca").NElems == old(fgen.locals[localIdent(deref(cast(res0(old.NElems()).Val(), "*ast.LocalIdent")))])
+//@   ensures result == nil && res1(old.NElems()) && typeis(res0(old.NElems()).Val(), "*ast.GlobalIdent") && cast(res0(old.NElems()).Val(), "*ast.GlobalIdent") != nil ==> cast(new, "*ir.InstAlloca").NElems == old(fgen.gen.new.globals[globalIdent(deref(cast(res0(old.NElems()).Val(), "*ast.GlobalIdent")))])
+//@   ensures res1(old.NElems()) && typeis(res0(old.NElems()).Val(), "*ast.LocalIdent") && cast(res0(old.NElems()).Val(), "*ast.LocalIdent") != nil && !old(mapdom(fgen.locals, localIdent(deref(cast(res0(old.NElems()).Val(), "*ast.LocalIdent"))))) ==> result != nil
+//@   ensures res1(old.NElems()) && typeis(res0(old.NElems()).Val(), "*ast.GlobalIdent") && cast(res0(old.NElems()).Val(), "*ast.GlobalIdent") != nil && !old(mapdom(fgen.gen.new.globals, globalIdent(deref(cast(res0(old.NElems()).Val(), "*ast.GlobalIdent"))))) ==> result != nil
+//@ func (*funcGen).irLoadInst
+//@   props C04 C05
+//@   partial
+//@   requires fgen != nil && fgen.gen != nil && fgen.f != nil && fgen.f.GlobalID >= 0 && old != nil && typeis(new, "*ir.InstLoad") && cast(new, "*ir.InstLoad") != nil
+//@   assigns anything
+//@   keeps ir.InstLoad.Src, funcGen.locals, mapof(funcGen.locals), funcGen.gen, funcGen.f, generator.new, newIndex.globals, mapof(newIndex.globals), ir.GlobalIdent.GlobalID
+//@   ensures result == nil && typeis(old.Src().Val(), "*ast.LocalIdent") && cast(old.Src().Val(), "*ast.LocalIdent") != nil ==> cast(new, "*ir.InstLoad").Src == old(fgen.locals[localIdent(deref(cast(old.Src().Val(), "*ast.LocalIdent")))])
+//@   ensures result == nil && typeis(old.Src().Val(), "*ast.GlobalIdent") && cast(old.Src().Val(), "*ast.GlobalIdent") != nil ==> cast(new, "*ir.InstLoad").Src == old(fgen.gen.new.globals[globalIdent(deref(cast(old.Src().Val(), "*ast.GlobalIdent")))])
+//@   ensures typeis(old.Src().Val(), "*ast.LocalIdent") && cast(old.Src().Val(), "*ast.LocalIdent") != nil && !old(mapdom(fgen.locals, localIdent(deref(cast(old.Src().Val(), "*ast.LocalIdent"))))) ==> result != nil
+//@   ensures typeis(old.Src().Val(), "*ast.GlobalIdent") && cast(old.Src().Val(), "*ast.GlobalIdent") != nil && !old(mapdom(fgen.gen.new.globals, globalIdent(deref(cast(old.Src().Val(), "*ast.GlobalIdent"))))) ==> result != nil
+//@ func (*funcGen).irStoreInst
+//@   props C04 C05
+//@   partial
+//@   requires fgen != nil && fgen.gen != nil && fgen.f != nil && fgen.f.GlobalID >= 0 && old != nil && typeis(new, "*ir.InstStore") && cast(new, "*ir.InstStore") != nil
+//@   assigns anything
+//@   keeps ir.InstStore.Src, ir.InstStore.Dst, funcGen.locals, mapof(funcGen.locals), funcGen.gen, funcGen.f, generator.new, newIndex.globals, mapof(newIndex.globals), ir.GlobalIdent.GlobalID
+//@   ensures result == nil && typeis(old.Src().Val(), "*ast.LocalIdent") && cast(old.Src().Val(), "*ast.LocalIdent") != nil ==> cast(new, "*ir.InstStore").Src == old(fgen.locals[localIdent(deref(cast(old.Src().Val(), "*ast.LocalIdent")))])
+//@   ensures result == nil && typeis(old.Src().Val(), "*ast.GlobalIdent") && cast(old.Src().Val(), "*ast.GlobalIdent") != nil ==> cast(new, "*ir.InstStore").Src == old(fgen.gen.new.globals[globalIdent(deref(cast(old.Src().Val(), "*ast.GlobalIdent")))])
+//@   ensures typeis(old.Src().Val(), "*ast.LocalIdent") && cast(old.Src().Val(), "*ast.LocalIdent") != nil && !old(mapdom(fgen.locals, localIdent(deref(cast(old.Src().Val(), "*ast.LocalIdent"))))) ==> result != nil
+//@   ensures typeis(old.Src().Val(), "*ast.GlobalIdent") && cast(old.Src().Val(), "*ast.GlobalIdent") != nil && !old(mapdom(fgen.gen.new.globals, globalIdent(deref(cast(old.Src().Val(), "*ast.GlobalIdent"))))) ==> result != nil
+//@   ensures result == nil && typeis(old.Dst().Val(), "*ast.LocalIdent") && cast(old.Dst().Val(), "*ast.LocalIdent") != nil ==> cast(new, "*ir.InstStore").Dst == old(fgen.locals[localIdent(deref(cast(old.Dst().Val(), "*ast.LocalIdent")))])
+//@   ensures result == nil && typeis(old.Dst().Val(), "*ast.GlobalIdent") && cast(old.Dst().Val(), "*ast.GlobalIdent") != nil ==> cast(new, "*ir.InstStore").Dst == old(fgen.gen.new.globals[globalIdent(deref(cast(old.Dst().Val(), "*ast.GlobalIdent")))])
+//@   ensures typeis(old.Dst().Val(), "*ast.LocalIdent") && cast(old.Dst().Val(), "*ast.LocalIdent") != nil && !old(mapdom(fgen.locals, localIdent(deref(cast(old.Dst().Val(), "*ast.LocalIdent"))))) ==> result != nil
+//@   ensures typeis(old.Dst().Val(), "*ast.GlobalIdent") && cast(old.Dst().Val(), "*ast.GlobalIdent") != nil && !old(mapdom(fgen.gen.new.globals, globalIdent(deref(cast(old.Dst().Val(), "*ast.GlobalIdent"))))) ==> result != nil
+//@ func (*funcGen).irCmpXchgInst
+//@   props C04 C05
+//@   partial
+//@   requires fgen != nil && fgen.gen != nil && fgen.f != nil && fgen.f.GlobalID >= 0 && old != nil && typeis(new, "*ir.InstCmpXchg") && cast(new, "*ir.InstCmpXchg") != nil
+//@   assigns anything
+//@   keeps ir.InstCmpXchg.Ptr, ir.InstCmpXchg.Cmp, ir.InstCmpXchg.New, funcGen.locals, mapof(funcGen.locals), funcGen.gen, funcGen.f, generator.new, newIndex.globals, mapof(newIndex.globals), ir.GlobalIdent.GlobalID
+//@   ensures result == nil && typeis(old.Ptr().Val(), "*ast.LocalIdent") && cast(old.Ptr().Val(), "*ast.LocalIdent") != nil ==> cast(new, "*ir.InstCmpXchg").Ptr == old(fgen.locals[localIdent(deref(cast(old.Ptr().Val(), "*ast.LocalIdent")))])
+//@   ensures result == nil && typeis(old.Ptr().Val(), "*ast.GlobalIdent") && cast(old.Ptr().Val(), "*ast.GlobalIdent") != nil ==> cast(new, "*ir.InstCmpXchg").Ptr == old(fgen.gen.new.globals[globalIdent(deref(cast(old.Ptr().Val(), "*ast.GlobalIdent")))])
+//@   ensures typeis(old.Ptr().Val(), "*ast.LocalIdent") && cast(old.Ptr().Val(), "*ast.LocalIdent") != nil && !old(mapdom(fgen.locals, localIdent(deref(cast(old.Ptr().Val(), "*ast.LocalIdent"))))) ==> result != nil
+//@   ensures typeis(old.Ptr().Val(), "*ast.GlobalIdent") && cast(old.Ptr().Val(), "*ast.GlobalIdent") != nil && !old(mapdom(fgen.gen.new.globals, globalIdent(deref(cast(old.Ptr().Val(), "*ast.GlobalIdent"))))) ==> result != nil
+//@   ensures result == nil && typeis(old.Cmp().Val(), "*ast.LocalIdent") && cast(old.Cmp().Val(), "*ast.LocalIdent") != nil ==> cast(new, "*ir.InstCmpXchg").Cmp == old(fgen.locals[localIdent(deref(cast(old.Cmp().Val(), "*ast.LocalIdent")))])
+//@   ensures result == nil && typeis(old.Cmp().Val(), "*ast.GlobalIdent") && cast(old.Cmp().Val(), "*ast.GlobalIdent") != nil ==> cast(new, "*ir.InstCmpXchg").Cmp == old(fgen.gen.new.globals[globalIdent(deref(cast(old.Cmp().Val(), "*ast.GlobalIdent")))])
+//@   ensures typeis(old.Cmp().Val(), "*ast.LocalIdent") && cast(old.Cmp().Val(), "*ast.LocalIdent") != nil && !old(mapdom(fgen.locals, localIdent(deref(cast(old.Cmp().Val(), "*ast.LocalIdent"))))) ==> result != nil
+//@   ensures typeis(old.Cmp().Val(), "*ast.GlobalIdent") && cast(old.Cmp().Val(), "*ast.GlobalIdent") != nil && !old(mapdom(fgen.gen.new.globals, globalIdent(deref(cast(old.Cmp().Val(), "*ast.GlobalIdent"))))) ==> result != nil
+//@   ensures result == nil && typeis(old.New().Val(), "*ast.LocalIdent") && cast(old.New().Val(), "*ast.LocalIdent") != nil ==> cast(new, "*ir.InstCmpXchg").New == old(fgen.locals[localIdent(deref(cast(old.New().Val(), "*ast.LocalIdent")))])
+//@   ensures result == nil && typeis(old.New().Val(), "*ast.GlobalIdent") && cast(old.New().Val(), "*ast.GlobalIdent") != nil ==> cast(new, "*ir.InstCmpXchg").New == old(fgen.gen.new.globals[globalIdent(deref(cast(old.New().Val(), "*ast.GlobalIdent")))])
+//@   ensures typeis(old.New().Val(), "*ast.LocalIdent") && cast(old.New().Val(), "*ast.LocalIdent") != nil && !old(mapdom(fgen.locals, localIdent(deref(cast(old.New().Val(), "*ast.LocalIdent"))))) ==> result != nil
+//@   ensures typeis(old.New().Val(), "*ast.GlobalIdent") && cast(old.New().Val(), "*ast.GlobalIdent") != nil && !old(mapdom(fgen.gen.new.globals, globalIdent(deref(cast(old.New().Val(), "*ast.GlobalIdent"))))) ==> result != nil
+//@ func (*funcGen).irAtomicRMWInst
+//@   props C04 C05
+//@   partial
+//@   requires fgen != nil && fgen.gen != nil && fgen.f != nil && fgen.f.GlobalID >= 0 && old != nil && typeis(new, "*ir.InstAtomicRMW") && cast(new, "*ir.InstAtomicRMW") != nil
+//@   assigns anything
+//@   keeps ir.InstAtomicRMW.Dst, ir.InstAtomicRMW.X, funcGen.locals, mapof(funcGen.locals), funcGen.gen, funcGen.f, generator.new, newIndex.globals, mapof(newIndex.globals), ir.GlobalIdent.GlobalID
+//@   ensures result == nil && typeis(old.Dst().Val(), "*ast.LocalIdent") && cast(old.Dst().Val(), "*ast.LocalIdent") != nil ==> cast(new, "*ir.InstAtomicRMW").Dst == old(fgen.locals[localIdent(deref(cast(old.Dst().Val(), "*ast.LocalIdent")))])
+//@   ensures result == nil && typeis(old.Dst().Val(), "*ast.GlobalIdent") && cast(old.Dst().Val(), "*ast.GlobalIdent") != nil ==> cast(new, "*ir.InstAtomicRMW").Dst == old(fgen.gen.new.globals[globalIdent(deref(cast(old.Dst().Val(), "*ast.GlobalIdent")))])
+//@   ensures typeis(old.Dst().Val(), "*ast.LocalIdent") && cast(old.Dst().Val(), "*ast.LocalIdent") != nil && !old(mapdom(fgen.locals, localIdent(deref(cast(old.Dst().Val(), "*ast.LocalIdent"))))) ==> result != nil
+//@   ensures typeis(old.Dst().Val(), "*ast.GlobalIdent") && cast(old.Dst().Val(), "*ast.GlobalIdent") != nil && !old(mapdom(fgen.gen.new.globals, globalIdent(deref(cast(old.Dst().Val(), "*ast.GlobalIdent"))))) ==> result != nil
+//@   ensures result == nil && typeis(old.X().Val(), "*ast.LocalIdent") && cast(old.X().Val(), "*ast.LocalIdent") != nil ==> cast(new, "*ir.InstAtomicRMW").X == old(fgen.locals[localIdent(deref(cast(old.X().Val(), "*ast.LocalIdent")))])
+//@   ensures result == nil && typeis(old.X().Val(), "*ast.GlobalIdent") && cast(old.X().Val(), "*ast.GlobalIdent") != nil ==> cast(new, "*ir.InstAtomicRMW").X == old(fgen.gen.new.globals[globalIdent(deref(cast(old.X().Val(), "*ast.GlobalIdent")))])
+//@   ensures typeis(old.X().Val(), "*ast.LocalIdent") && cast(old.X().Val(), "*ast.LocalIdent") != nil && !old(mapdom(fgen.locals, localIdent(deref(cast(old.X().Val(), "*ast.LocalIdent"))))) ==> result != nil
+//@   ensures typeis(old.X().Val(), "*ast.GlobalIdent") && cast(old.X().Val(), "*ast.GlobalIdent") != nil && !old(mapdom(fgen.gen.new.globals, globalIdent(deref(cast(old.X().Val(), "*ast.GlobalIdent"))))) ==> result != nil
+//@ func (*funcGen).irGetElementPtrInst
+//@   props C04 C05
+//@   partial
+//@   requires fgen != nil && fgen.gen != nil && fgen.f != nil && fgen.f.GlobalID >= 0 && old != nil && typeis(new, "*ir.InstGetElementPtr") && cast(new, "*ir.InstGetElementPtr") != nil
+//@   assigns anything
+//@   keeps ir.InstGetElementPtr.Src, funcGen.locals, mapof(funcGen.locals), funcGen.gen, funcGen.f, generator.new, newIndex.globals, mapof(newIndex.globals), ir.GlobalIdent.GlobalID
+//@   ensures result == nil && typeis(old.Src().Val(), "*ast.LocalIdent") && cast(old.Src().Val(), "*ast.LocalIdent") != nil ==> cast(new, "*ir.InstGetElementPtr").Src == old(fgen.locals[localIdent(deref(cast(old.Src().Val(), "*ast.LocalIdent")))])
+//@   ensures result == nil && typeis(old.Src().Val(), "*ast.GlobalIdent") && cast(old.Src().Val(), "*ast.GlobalIdent") != nil ==> cast(new, "*ir.InstGetElementPtr").Src == old(fgen.gen.new.globals[globalIdent(deref(cast(old.Src().Val(), "*ast.GlobalIdent")))])
+//@   ensures typeis(old.Src().Val(), "*ast.LocalIdent") && cast(old.Src().Val(), "*ast.LocalIdent") != nil && !old(mapdom(fgen.locals, localIdent(deref(cast(old.Src().Val(), "*ast.LocalIdent"))))) ==> result != nil
+//@   ensures typeis(old.Src().Val(), "*ast.GlobalIdent") && cast(old.Src().Val(), "*ast.GlobalIdent") != nil && !old(mapdom(fgen.gen.new.globals, globalIdent(deref(cast(old.Src().Val(), "*ast.GlobalIdent"))))) ==> result != nil
+//@   loop 0: invariant true
+//@ func (*funcGen).irICmpInst
+//@   props C04 C05
+//@   partial
+//@   requires fgen != nil && fgen.gen != nil && fgen.f != nil && fgen.f.GlobalID >= 0 && old != nil && typeis(new, "*ir.InstICmp") && cast(new, "*ir.InstICmp") != nil
+//@   assigns anything
+//@   keeps ir.InstICmp.X, ir.InstICmp.Y, funcGen.locals, mapof(funcGen.locals), funcGen.gen, funcGen.f, generator.new, newIndex.globals, mapof(newIndex.globals), ir.GlobalIdent.GlobalID
+//@   ensures result == nil && typeis(old.X().Val(), "*ast.LocalIdent") && cast(old.X().Val(), "*ast.LocalIdent") != nil ==> cast(new, "*ir.InstICmp").X == old(fgen.locals[localIdent(deref(cast(old.X().Val(), "*ast.LocalIdent")))])
+//@   ensures result == nil && typeis(old.X().Val(), "*ast.GlobalIdent") && cast(old.X().Val(), "*ast.GlobalIdent") != nil ==> cast(new, "*ir.InstICmp").X == old(fgen.gen.new.globals[globalIdent(deref(cast(old.X().Val(), "*ast.GlobalIdent")))])
+//@   ensures typeis(old.X().Val(), "*ast.LocalIdent") && cast(old.X().Val(), "*ast.LocalIdent") != nil && !old(mapdom(fgen.locals, localIdent(deref(cast(old.X().Val(), "*ast.LocalIdent"))))) ==> result != nil
+//@   ensures typeis(old.X().Val(), "*ast.GlobalIdent") && cast(old.X().Val(), "*ast.GlobalIdent") != nil && !old(mapdom(fgen.gen.new.globals, globalIdent(deref(cast(old.X().Val(), "*ast.GlobalIdent"))))) ==> result != nil
+//@   ensures result == nil && typeis(old.Y(), "*ast.LocalIdent") && cast(old.Y(), "*ast.LocalIdent") != nil ==> cast(new, "*ir.InstICmp").Y == old(fgen.locals[localIdent(deref(cast(old.Y(), "*ast.LocalIdent")))])
+//@   ensures result == nil && typeis(old.Y(), "*ast.GlobalIdent") && cast(old.Y(), "*ast.GlobalIdent") != nil ==> cast(new, "*ir.InstICmp").Y == old(fgen.gen.new.globals[globalIdent(deref(cast(old.Y(), "*ast.GlobalIdent")))])
+//@   ensures typeis(old.Y(), "*ast.LocalIdent") && cast(old.Y(), "*ast.LocalIdent") != nil && !old(mapdom(fgen.locals, localIdent(deref(cast(old.Y(), "*ast.LocalIdent"))))) ==> result != nil
+//@   ensures typeis(old.Y(), "*ast.GlobalIdent") && cast(old.Y(), "*ast.GlobalIdent") != nil && !old(mapdom(fgen.gen.new.globals, globalIdent(deref(cast(old.Y(), "*ast.GlobalIdent"))))) ==> result != nil
+//@ func (*funcGen).irFCmpInst
+//@   props C04 C05
+//@   partial
+//@   requires fgen != nil && fgen.gen != nil && fgen.f != nil && fgen.f.GlobalID >= 0 && old != nil && typeis(new, "*ir.InstFCmp") && cast(new, "*ir.InstFCmp") != nil
+//@   assigns anything
+//@   keeps ir.InstFCmp.X, ir.InstFCmp.Y, funcGen.locals, mapof(funcGen.locals), funcGen.gen, funcGen.f, generator.new, newIndex.globals, mapof(newIndex.globals), ir.GlobalIdent.GlobalID
+//@   ensures result == nil && typeis(old.X().Val(), "*ast.LocalIdent") && cast(old.X().Val(), "*ast.LocalIdent") != nil ==> cast(new, "*ir.InstFCmp").X == old(fgen.locals[localIdent(deref(cast(old.X().Val(), "*ast.LocalIdent")))])
+//@   ensures result == nil && typeis(old.X().Val(), "*ast.GlobalIdent") && cast(old.X().Val(), "*ast.GlobalIdent") != nil ==> cast(new, "*ir.InstFCmp").X == old(fgen.gen.new.globals[globalIdent(deref(cast(old.X().Val(), "*ast.GlobalIdent")))])
+//@   ensures typeis(old.X().Val(), "*ast.LocalIdent") && cast(old.X().Val(), "*ast.LocalIdent") != nil && !old(mapdom(fgen.locals, localIdent(deref(cast(old.X().Val(), "*ast.LocalIdent"))))) ==> result != nil
+//@   ensures typeis(old.X().Val(), "*ast.GlobalIdent") && cast(old.X().Val(), "*ast.GlobalIdent") != nil && !old(mapdom(fgen.gen.new.globals, globalIdent(deref(cast(old.X().Val(), "*ast.GlobalIdent"))))) ==> result != nil
+//@   ensures result == nil && typeis(old.Y(), "*ast.LocalIdent") && cast(old.Y(), "*ast.LocalIdent") != nil ==> cast(new, "*ir.InstFCmp").Y == old(fgen.locals[localIdent(deref(cast(old.Y(), "*ast.LocalIdent")))])
+//@   ensures result == nil && typeis(old.Y(), "*ast.GlobalIdent") && cast(old.Y(), "*ast.GlobalIdent") != nil ==> cast(new, "*ir.InstFCmp").Y == old(fgen.gen.new.globals[globalIdent(deref(cast(old.Y(), "*ast.GlobalIdent")))])
+//@   ensures typeis(old.Y(), "*ast.LocalIdent") && cast(old.Y(), "*ast.LocalIdent") != nil && !old(mapdom(fgen.locals, localIdent(deref(cast(old.Y(), "*ast.LocalIdent"))))) ==> result != nil
+//@   ensures typeis(old.Y(), "*ast.GlobalIdent") && cast(old.Y(), "*ast.GlobalIdent") != nil && !old(mapdom(fgen.gen.new.globals, globalIdent(deref(cast(old.Y(), "*ast.GlobalIdent"))))) ==> result != nil
+//@ func (*funcGen).irSelectInst
+//@   props C04 C05
+//@   partial
+//@   requires fgen != nil && fgen.gen != nil && fgen.f != nil && fgen.f.GlobalID >= 0 && old != nil && typeis(new, "*ir.InstSelect") && cast(new, "*ir.InstSelect") != nil
+//@   assigns anything
+//@   keeps ir.InstSelect.Cond, ir.InstSelect.ValueTrue, ir.InstSelect.ValueFalse, funcGen.locals, mapof(funcGen.locals), funcGen.gen, funcGen.f, generator.new, newIndex.globals, mapof(newIndex.globals), ir.GlobalIdent.GlobalID
+//@   ensures result == nil && typeis(old.Cond().Val(), "*ast.LocalIdent") && cast(old.Cond().Val(), "*ast.LocalIdent") != nil ==> cast(new, "*ir.InstSelect").Cond == old(fgen.locals[localIdent(deref(cast(old.Cond().Val(), "*ast.LocalIdent")))])
+//@   ensures result == nil && typeis(old.Cond().Val(), "*ast.GlobalIdent") && cast(old.Cond().Val(), "*ast.GlobalIdent") != nil ==> cast(new, "*ir.InstSelect").Cond == old(fgen.gen.new.globals[globalIdent(deref(cast(old.Cond().Val(), "*ast.GlobalIdent")))])
+//@   ensures typeis(old.Cond().Val(), "*ast.LocalIdent") && cast(old.Cond().Val(), "*ast.LocalIdent") != nil && !old(mapdom(fgen.locals, localIdent(deref(cast(old.Cond().Val(), "*ast.LocalIdent"))))) ==> result != nil
+//@   ensures typeis(old.Cond().Val(), "*ast.GlobalIdent") && cast(old.Cond().Val(), "*ast.GlobalIdent") != nil && !old(mapdom(fgen.gen.new.globals, globalIdent(deref(cast(old.Cond().Val(), "*ast.GlobalIdent"))))) ==> result != nil
+//@   ensures result == nil && typeis(old.ValueTrue().Val(), "*ast.LocalIdent") && cast(old.ValueTrue().Val(), "*ast.LocalIdent") != nil ==> cast(new, "*ir.InstSelect").ValueTrue == old(fgen.locals[localIdent(deref(cast(old.ValueTrue().Val(), "*ast.LocalIdent")))])
+//@   ensures result == nil && typeis(old.ValueTrue().Val(), "*ast.GlobalIdent") && cast(old.ValueTrue().Val(), "*ast.GlobalIdent") != nil ==> cast(new, "*ir.InstSelect").ValueTrue == old(fgen.gen.new.globals[globalIdent(deref(cast(old.ValueTrue().Val(), "*ast.GlobalIdent")))])
+//@   ensures typeis(old.ValueTrue().Val(), "*ast.LocalIdent") && cast(old.ValueTrue().Val(), "*ast.LocalIdent") != nil && !old(mapdom(fgen.locals, localIdent(deref(cast(old.ValueTrue().Val(), "*ast.LocalIdent"))))) ==> result != nil
+//@   ensures typeis(old.ValueTrue().Val(), "*ast.GlobalIdent") && cast(old.ValueTrue().Val(), "*ast.GlobalIdent") != nil && !old(mapdom(fgen.gen.new.globals, globalIdent(deref(cast(old.ValueTrue().Val(), "*ast.GlobalIdent"))))) ==> result != nil
+//@   ensures result == nil && typeis(old.ValueFalse().Val(), "*ast.LocalIdent") && cast(old.ValueFalse().Val(), "*ast.LocalIdent") != nil ==> cast(new, "*ir.InstSelect").ValueFalse == old(fgen.locals[localIdent(deref(cast(old.ValueFalse().Val(), "*ast.LocalIdent")))])
+//@   ensures result == nil && typeis(old.ValueFalse().Val(), "*ast.GlobalIdent") && cast(old.ValueFalse().Val(), "*ast.GlobalIdent") != nil ==> cast(new, "*ir.InstSelect").ValueFalse == old(fgen.gen.new.globals[globalIdent(deref(cast(old.ValueFalse().Val(), "*ast.GlobalIdent")))])
+//@   ensures typeis(old.ValueFalse().Val(), "*ast.LocalIdent") && cast(old.ValueFalse().Val(), "*ast.LocalIdent") != nil && !old(mapdom(fgen.locals, localIdent(deref(cast(old.ValueFalse().Val(), "*ast.LocalIdent"))))) ==> result != nil
+//@   ensures typeis(old.ValueFalse().Val(), "*ast.GlobalIdent") && cast(old.ValueFalse().Val(), "*ast.GlobalIdent") != nil && !old(mapdom(fgen.gen.new.globals, globalIdent(deref(cast(old.ValueFalse().Val(), "*ast.GlobalIdent"))))) ==> result != nil
+//@ func (*funcGen).irFreezeInst
+//@   props C04 C05
+//@   partial
+//@   requires fgen != nil && fgen.gen != nil && fgen.f != nil && fgen.f.GlobalID >= 0 && old != nil && typeis(new, "*ir.InstFreeze") && cast(new, "*ir.InstFreeze") != nil
+//@   assigns anything
+//@   keeps ir.InstFreeze.X, funcGen.locals, mapof(funcGen.locals), funcGen.gen, funcGen.f, generator.new, newIndex.globals, mapof(newIndex.globals), ir.GlobalIdent.GlobalID
+//@   ensures result == nil && typeis(old.X().Val(), "*ast.LocalIdent") && cast(old.X().Val(), "*ast.LocalIdent") != nil ==> cast(new, "*ir.InstFreeze").X == old(fgen.locals[localIdent(deref(cast(old.X().Val(), "*ast.LocalIdent")))])
+//@   ensures result == nil && typeis(old.X().Val(), "*ast.GlobalIdent") && cast(old.X().Val(), "*ast.GlobalIdent") != nil ==> cast(new, "*ir.InstFreeze").X == old(fgen.gen.new.globals[globalIdent(deref(cast(old.X().Val(), "*ast.GlobalIdent")))])
+//@   ensures typeis(old.X().Val(), "*ast.LocalIdent") && cast(old.X().Val(), "*ast.LocalIdent") != nil && !old(mapdom(fgen.locals, localIdent(deref(cast(old.X().Val(), "*ast.LocalIdent"))))) ==> result != nil
+//@   ensures typeis(old.X().Val(), "*ast.GlobalIdent") && cast(old.X().Val(), "*ast.GlobalIdent") != nil && !old(mapdom(fgen.gen.new.globals, globalIdent(deref(cast(old.X().Val(), "*ast.GlobalIdent"))))) ==> result != nil
+//@ func (*funcGen).irCallInst
+//@   props C04 C05
+//@   partial
+//@   requires fgen != nil && fgen.gen != nil && fgen.f != nil && fgen.f.GlobalID >= 0 && old != nil && typeis(new, "*ir.InstCall") && cast(new, "*ir.InstCall") != nil
+//@   assigns anything
+//@   keeps ir.InstCall.Callee, funcGen.locals, mapof(funcGen.locals), funcGen.gen, funcGen.f, generator.new, newIndex.globals, mapof(newIndex.globals), ir.GlobalIdent.GlobalID
+//@   ensures result == nil && typeis(old.Callee(), "*ast.LocalIdent") && cast(old.Callee(), "*ast.LocalIdent") != nil ==> cast(new, "*ir.InstCall").Callee == old(fgen.locals[localIdent(deref(cast(old.Callee(), "*ast.LocalIdent")))])
+//@   ensures result == nil && typeis(old.Callee(), "*ast.GlobalIdent") && cast(old.Callee(), "*ast.GlobalIdent") != nil ==> cast(new, "*ir.InstCall").Callee == old(fgen.gen.new.globals[globalIdent(deref(cast(old.Callee(), "*ast.GlobalIdent")))])
+//@   ensures typeis(old.Callee(), "*ast.LocalIdent") && cast(old.Callee(), "*ast.LocalIdent") != nil && !old(mapdom(fgen.locals, localIdent(deref(cast(old.Callee(), "*ast.LocalIdent"))))) ==> result != nil
+//@   ensures typeis(old.Callee(), "*ast.GlobalIdent") && cast(old.Callee(), "*ast.GlobalIdent") != nil && !old(mapdom(fgen.gen.new.globals, globalIdent(deref(cast(old.Callee(), "*ast.GlobalIdent"))))) ==> result != nil
+//@   loop 0: invariant true
+//@   loop 1: invariant true
+//@   loop 2: invariant true
+//@   loop 3: invariant true
+//@   loop 4: invariant true
+//@ func (*funcGen).irVAArgInst
+//@   props C04 C05
+//@   partial
+//@   requires fgen != nil && fgen.gen != nil && fgen.f != nil && fgen.f.GlobalID >= 0 && old != nil && typeis(new, "*ir.InstVAArg") && cast(new, "*ir.InstVAArg") != nil
+//@   assigns anything
+//@   keeps ir.InstVAArg.ArgList, funcGen.locals, mapof(funcGen.locals), funcGen.gen, funcGen.f, generator.new, newIndex.globals, mapof(newIndex.globals), ir.GlobalIdent.GlobalID
+//@   ensures result == nil && typeis(old.ArgList().Val(), "*ast.LocalIdent") && cast(old.ArgList().Val(), "*ast.LocalIdent") != nil ==> cast(new, "*ir.InstVAArg").ArgList == old(fgen.locals[localIdent(deref(cast(old.ArgList().Val(), "*ast.LocalIdent")))])
+//@   ensures result == nil && typeis(old.ArgList().Val(), "*ast.GlobalIdent") && cast(old.ArgList().Val(), "*ast.GlobalIdent") != nil ==> cast(new, "*ir.InstVAArg").ArgList == old(fgen.gen.new.globals[globalIdent(deref(cast(old.ArgList().Val(), "*ast.GlobalIdent")))])
+//@   ensures typeis(old.ArgList().Val(), "*ast.LocalIdent") && cast(old.ArgList().Val(), "*ast.LocalIdent") != nil && !old(mapdom(fgen.locals, localIdent(deref(cast(old.ArgList().Val(), "*ast.LocalIdent"))))) ==> result != nil
+//@   ensures typeis(old.ArgList().Val(), "*ast.GlobalIdent") && cast(old.ArgList().Val(), "*ast.GlobalIdent") != nil && !old(mapdom(fgen.gen.new.globals, globalIdent(deref(cast(old.ArgList().Val(), "*ast.GlobalIdent"))))) ==> result != nil
+//@ func (*funcGen).irFNegInst
+//@   props C04 C05
+//@   partial
+//@   requires fgen != nil && fgen.gen != nil && fgen.f != nil && fgen.f.GlobalID >= 0 && old != nil && typeis(new, "*ir.InstFNeg") && cast(new, "*ir.InstFNeg") != nil
+//@   assigns anything
+//@   keeps ir.InstFNeg.X, funcGen.locals, mapof(funcGen.locals), funcGen.gen, funcGen.f, generator.new, newIndex.globals, mapof(newIndex.globals), ir.GlobalIdent.GlobalID
+//@   ensures result == nil && typeis(old.X().Val(), "*ast.LocalIdent") && cast(old.X().Val(), "*ast.LocalIdent") != nil ==> cast(new, "*ir.InstFNeg").X == old(fgen.locals[localIdent(deref(cast(old.X().Val(), "*ast.LocalIdent")))])
+//@   ensures result == nil && typeis(old.X().Val(), "*ast.GlobalIdent") && cast(old.X().Val(), "*ast.GlobalIdent") != nil ==> cast(new, "*ir.InstFNeg").X == old(fgen.gen.new.globals[globalIdent(deref(cast(old.X().Val(), "*ast.GlobalIdent")))])
+//@   ensures typeis(old.X().Val(), "*ast.LocalIdent") && cast(old.X().Val(), "*ast.LocalIdent") != nil && !old(mapdom(fgen.locals, localIdent(deref(cast(old.X().Val(), "*ast.LocalIdent"))))) ==> result != nil
+//@   ensures typeis(old.X().Val(), "*ast.GlobalIdent") && cast(old.X().Val(), "*ast.GlobalIdent") != nil && !old(mapdom(fgen.gen.new.globals, globalIdent(deref(cast(old.X().Val(), "*ast.GlobalIdent"))))) ==> result != nil
+//@ func (*funcGen).irExtractElementInst
+//@   props C04 C05
+//@   partial
+//@   requires fgen != nil && fgen.gen != nil && fgen.f != nil && fgen.f.GlobalID >= 0 && old != nil && typeis(new, "*ir.InstExtractElement") && cast(new, "*ir.InstExtractElement") != nil
+//@   assigns anything
+//@   keeps ir.InstExtractElement.X, ir.InstExtractElement.Index, funcGen.locals, mapof(funcGen.locals), funcGen.gen, funcGen.f, generator.new, newIndex.globals, mapof(newIndex.globals), ir.GlobalIdent.GlobalID
+//@   ensures result == nil && typeis(old.X().Val(), "*ast.LocalIdent") && cast(old.X().Val(), "*ast.LocalIdent") != nil ==> cast(new, "*ir.InstExtractElement").X == old(fgen.locals[localIdent(deref(cast(old.X().Val(), "*ast.LocalIdent")))])
+//@   ensures result == nil && typeis(old.X().Val(), "*ast.GlobalIdent") && cast(old.X().Val(), "*ast.GlobalIdent") != nil ==> cast(new, "*ir.InstExtractElement").X == old(fgen.gen.new.globals[globalIdent(deref(cast(old.X().Val(), "*ast.GlobalIdent")))])
+//@   ensures typeis(old.X().Val(), "*ast.LocalIdent") && cast(old.X().Val(), "*ast.LocalIdent") != nil && !old(mapdom(fgen.locals, localIdent(deref(cast(old.X().Val(), "*ast.LocalIdent"))))) ==> result != nil
+//@   ensures typeis(old.X().Val(), "*ast.GlobalIdent") && cast(old.X().Val(), "*ast.GlobalIdent") != nil && !old(mapdom(fgen.gen.new.globals, globalIdent(deref(cast(old.X().Val(), "*ast.GlobalIdent"))))) ==> result != nil
+//@   ensures result == nil && typeis(old.Index().Val(), "*ast.LocalIdent") && cast(old.Index().Val(), "*ast.LocalIdent") != nil ==> cast(new, "*ir.InstExtractElement").Index == old(fgen.locals[localIdent(deref(cast(old.Index().Val(), "*ast.LocalIdent")))])
+//@   ensures result == nil && typeis(old.Index().Val(), "*ast.GlobalIdent") && cast(old.Index().Val(), "*ast.GlobalIdent") != nil ==> cast(new, "*ir.InstExtractElement").Index == old(fgen.gen.new.globals[globalIdent(deref(cast(old.Index().Val(), "*ast.GlobalIdent")))])
+//@   ensures typeis(old.Index().Val(), "*ast.LocalIdent") && cast(old.Index().Val(), "*ast.LocalIdent") != nil && !old(mapdom(fgen.locals, localIdent(deref(cast(old.Index().Val(), "*ast.LocalIdent"))))) ==> result != nil
+//@   ensures typeis(old.Index().Val(), "*ast.GlobalIdent") && cast(old.Index().Val(), "*ast.GlobalIdent") != nil && !old(mapdom(fgen.gen.new.globals, globalIdent(deref(cast(old.Index().Val(), "*ast.GlobalIdent"))))) ==> result != nil
+//@ func (*funcGen).irInsertElementInst
+//@   props C04 C05
+//@   partial
+//@   requires fgen != nil && fgen.gen != nil && fgen.f != nil && fgen.f.GlobalID >= 0 && old != nil && typeis(new, "*ir.InstInsertElement") && cast(new, "*ir.InstInsertElement") != nil
+//@   assigns anything
+//@   keeps ir.InstInsertElement.X, ir.InstInsertElement.Elem, ir.InstInsertElement.Index, funcGen.locals, mapof(funcGen.locals), funcGen.gen, funcGen.f, generator.new, newIndex.globals, mapof(newIndex.globals), ir.GlobalIdent.GlobalID
+//@   ensures result == nil && typeis(old.X().Val(), "*ast.LocalIdent") && cast(old.X().Val(), "*ast.LocalIdent") != nil ==> cast(new, "*ir.InstInsertElement").X == old(fgen.locals[localIdent(deref(cast(old.X().Val(), "*ast.LocalIdent")))])
+//@   ensures result == nil && typeis(old.X().Val(), "*ast.GlobalIdent") && cast(old.X().Val(), "*ast.GlobalIdent") != nil ==> cast(new, "*ir.InstInsertElement").X == old(fgen.gen.new.globals[globalIdent(deref(cast(old.X().Val(), "*ast.GlobalIdent")))])
+//@   ensures typeis(old.X().Val(), "*ast.LocalIdent") && cast(old.X().Val(), "*ast.LocalIdent") != nil && !old(mapdom(fgen.locals, localIdent(deref(cast(old.X().Val(), "*ast.LocalIdent"))))) ==> result != nil
+//@   ensures typeis(old.X().Val(), "*ast.GlobalIdent") && cast(old.X().Val(), "*ast.GlobalIdent") != nil && !old(mapdom(fgen.gen.new.globals, globalIdent(deref(cast(old.X().Val(), "*ast.GlobalIdent"))))) ==> result != nil
+//@   ensures result == nil && typeis(old.Elem().Val(), "*ast.LocalIdent") && cast(old.Elem().Val(), "*ast.LocalIdent") != nil ==> cast(new, "*ir.InstInsertElement").Elem == old(fgen.locals[localIdent(deref(cast(old.Elem().Val(), "*ast.LocalIdent")))])
+//@   ensures result == nil && typeis(old.Elem().Val(), "*ast.GlobalIdent") && cast(old.Elem().Val(), "*ast.GlobalIdent") != nil ==> cast(new, "*ir.InstInsertElement").Elem == old(fgen.gen.new.globals[globalIdent(deref(cast(old.Elem().Val(), "*ast.GlobalIdent")))])
+//@   ensures typeis(old.Elem().Val(), "*ast.LocalIdent") && cast(old.Elem().Val(), "*ast.LocalIdent") != nil && !old(mapdom(fgen.locals, localIdent(deref(cast(old.Elem().Val(), "*ast.LocalIdent"))))) ==> result != nil
+//@   ensures typeis(old.Elem().Val(), "*ast.GlobalIdent") && cast(old.Elem().Val(), "*ast.GlobalIdent") != nil && !old(mapdom(fgen.gen.new.globals, globalIdent(deref(cast(old.Elem().Val(), "*ast.GlobalIdent"))))) ==> result != nil
+//@   ensures result == nil && typeis(old.Index().Val(), "*ast.LocalIdent") && cast(old.Index().Val(), "*ast.LocalIdent") != nil ==> cast(new, "*ir.InstInsertElement").Index == old(fgen.locals[localIdent(deref(cast(old.Index().Val(), "*ast.LocalIdent")))])
+//@   ensures result == nil && typeis(old.Index().Val(), "*ast.GlobalIdent") && cast(old.Index().Val(), "*ast.GlobalIdent") != nil ==> cast(new, "*ir.InstInsertElement").Index == old(fgen.gen.new.globals[globalIdent(deref(cast(old.Index().Val(), "*ast.GlobalIdent")))])
+//@   ensures typeis(old.Index().Val(), "*ast.LocalIdent") && cast(old.Index().Val(), "*ast.LocalIdent") != nil && !old(mapdom(fgen.locals, localIdent(deref(cast(old.Index().Val(), "*ast.LocalIdent"))))) ==> result != nil
+//@   ensures typeis(old.Index().Val(), "*ast.GlobalIdent") && cast(old.Index().Val(), "*ast.GlobalIdent") != nil && !old(mapdom(fgen.gen.new.globals, globalIdent(deref(cast(old.Index().Val(), "*ast.GlobalIdent"))))) ==> result != nil
+//@ func (*funcGen).irShuffleVectorInst
+//@   props C04 C05
+//@   partial
+//@   requires fgen != nil && fgen.gen != nil && fgen.f != nil && fgen.f.GlobalID >= 0 && old != nil && typeis(new, "*ir.InstShuffleVector") && cast(new, "*ir.InstShuffleVector") != nil
+//@   assigns anything
+//@   keeps ir.InstShuffleVector.X, ir.InstShuffleVector.Y, ir.InstShuffleVector.Mask, funcGen.locals, mapof(funcGen.locals), funcGen.gen, funcGen.f, generator.new, newIndex.globals, mapof(newIndex.globals), ir.GlobalIdent.GlobalID
+//@   ensures result == nil && typeis(old.X().Val(), "*ast.LocalIdent") && cast(old.X().Val(), "*ast.LocalIdent") != nil ==> cast(new, "*ir.InstShuffleVector").X == old(fgen.locals[localIdent(deref(cast(old.X().Val(), "*ast.LocalIdent")))])
+//@   ensures result == nil && typeis(old.X().Val(), "*ast.GlobalIdent") && cast(old.X().Val(), "*ast.GlobalIdent") != nil ==> cast(new, "*ir.InstShuffleVector").X == old(fgen.gen.new.globals[globalIdent(deref(cast(old.X().Val(), "*ast.GlobalIdent")))])
+//@   ensures typeis(old.X().Val(), "*ast.LocalIdent") && cast(old.X().Val(), "*ast.LocalIdent") != nil && !old(mapdom(fgen.locals, localIdent(deref(cast(old.X().Val(), "*ast.LocalIdent"))))) ==> result != nil
+//@   ensures typeis(old.X().Val(), "*ast.GlobalIdent") && cast(old.X().Val(), "*ast.GlobalIdent") != nil && !old(mapdom(fgen.gen.new.globals, globalIdent(deref(cast(old.X().Val(), "*ast.GlobalIdent"))))) ==> result != nil
+//@   ensures result == nil && typeis(old.Y().Val(), "*ast.LocalIdent") && cast(old.Y().Val(), "*ast.LocalIdent") != nil ==> cast(new, "*ir.InstShuffleVector").Y == old(fgen.locals[localIdent(deref(cast(old.Y().Val(), "*ast.LocalIdent")))])
+//@   ensures result == nil && typeis(old.Y().Val(), "*ast.GlobalIdent") && cast(old.Y().Val(), "*ast.GlobalIdent") != nil ==> cast(new, "*ir.InstShuffleVector").Y == old(fgen.gen.new.globals[globalIdent(deref(cast(old.Y().Val(), "*ast.GlobalIdent")))])
+//@   ensures typeis(old.Y().Val(), "*ast.LocalIdent") && cast(old.Y().Val(), "*ast.LocalIdent") != nil && !old(mapdom(fgen.locals, localIdent(deref(cast(old.Y().Val(), "*ast.LocalIdent"))))) ==> result != nil
+//@   ensures typeis(old.Y().Val(), "*ast.GlobalIdent") && cast(old.Y().Val(), "*ast.GlobalIdent") != nil && !old(mapdom(fgen.gen.new.globals, globalIdent(deref(cast(old.Y().Val(), "*ast.GlobalIdent"))))) ==> result != nil
+//@   ensures result == nil && typeis(old.Mask().Val(), "*ast.LocalIdent") && cast(old.Mask().Val(), "*ast.LocalIdent") != nil ==> cast(new, "*ir.InstShuffleVector").Mask == old(fgen.locals[localIdent(deref(cast(old.Mask().Val(), "*ast.LocalIdent")))])
+//@   ensures result == nil && typeis(old.Mask().Val(), "*ast.GlobalIdent") && cast(old.Mask().Val(), "*ast.GlobalIdent") != nil ==> cast(new, "*ir.InstShuffleVector").Mask == old(fgen.gen.new.globals[globalIdent(deref(cast(old.Mask().Val(), "*ast.GlobalIdent")))])
+//@   ensures typeis(old.Mask().Val(), "*ast.LocalIdent") && cast(old.Mask().Val(), "*ast.LocalIdent") != nil && !old(mapdom(fgen.locals, localIdent(deref(cast(old.Mask().Val(), "*ast.LocalIdent"))))) ==> result != nil
+//@   ensures typeis(old.Mask().Val(), "*ast.GlobalIdent") && cast(old.Mask().Val(), "*ast.GlobalIdent") != nil && !old(mapdom(fgen.gen.new.globals, globalIdent(deref(cast(old.Mask().Val(), "*ast.GlobalIdent"))))) ==> result != nil
+//@ func (*funcGen).irRetTerm
+//@   props C04 C05
+//@   partial
+//@   requires fgen != nil && fgen.gen != nil && fgen.f != nil && fgen.f.GlobalID >= 0 && old != nil && typeis(new, "*ir.TermRet") && cast(new, "*ir.TermRet") != nil
+//@   assigns anything
+//@   keeps ir.TermRet.X, funcGen.locals, mapof(funcGen.locals), funcGen.gen, funcGen.f, generator.new, newIndex.globals, mapof(newIndex.globals), ir.GlobalIdent.GlobalID
+//@   ensures result == nil && res1(old.X()) && typeis(res0(old.X()), "*ast.LocalIdent") && cast(res0(old.X()), "*ast.LocalIdent") != nil ==> cast(new, "*ir.TermRet").X == old(fgen.locals[localIdent(deref(cast(res0(old.X()), "*ast.LocalIdent")))])
+//@   ensures result == nil && res1(old.X()) && typeis(res0(old.X()), "*ast.GlobalIdent") && cast(res0(old.X()), "*ast.GlobalIdent") != nil ==> cast(new, "*ir.TermRet").X == old(fgen.gen.new.globals[globalIdent(deref(cast(res0(old.X()), "*ast.GlobalIdent")))])
+//@   ensures res1(old.X()) && typeis(res0(old.X()), "*ast.LocalIdent") && cast(res0(old.X()), "*ast.LocalIdent") != nil && !old(mapdom(fgen.locals, localIdent(deref(cast(res0(old.X()), "*ast.LocalIdent"))))) ==> result != nil
+//@   ensures res1(old.X()) && typeis(res0(old.X()), "*ast.GlobalIdent") && cast(res0(old.X()), "*ast.GlobalIdent") != nil && !old(mapdom(fgen.gen.new.globals, globalIdent(deref(cast(res0(old.X()), "*ast.GlobalIdent"))))) ==> result != nil
+//@ func (*funcGen).irBrTerm
+//@   props C04 C05
+//@   partial
+//@   requires fgen != nil && fgen.gen != nil && fgen.f != nil && fgen.f.GlobalID >= 0 && old != nil && typeis(new, "*ir.TermBr") && cast(new, "*ir.TermBr") != nil
+//@   assigns anything
+//@   keeps ir.TermBr.Target, funcGen.locals, mapof(funcGen.locals), funcGen.gen, funcGen.f, generator.new, newIndex.globals, mapof(newIndex.globals), ir.GlobalIdent.GlobalID
+//@   ensures result == nil ==> boxed(cast(new, "*ir.TermBr").Target) == old(fgen.locals[localIdent(old.Target().Name())])
+//@   ensures !old(mapdom(fgen.locals, localIdent(old.Target().Name()))) ==> result != nil
+//@ func (*funcGen).irCondBrTerm
+//@   props C04 C05
+//@   partial
+//@   requires fgen != nil && fgen.gen != nil && fgen.f != nil && fgen.f.GlobalID >= 0 && old != nil && typeis(new, "*ir.TermCondBr") && cast(new, "*ir.TermCondBr") != nil
+//@   assigns anything
+//@   keeps ir.TermCondBr.Cond, ir.TermCondBr.TargetTrue, ir.TermCondBr.TargetFalse, funcGen.locals, mapof(funcGen.locals), funcGen.gen, funcGen.f, generator.new, newIndex.globals, mapof(newIndex.globals), ir.GlobalIdent.GlobalID
+//@   ensures result == nil && typeis(old.Cond(), "*ast.LocalIdent") && cast(old.Cond(), "*ast.LocalIdent") != nil ==> cast(new, "*ir.TermCondBr").Cond == old(fgen.locals[localIdent(deref(cast(old.Cond(), "*ast.LocalIdent")))])
+//@   ensures result == nil && typeis(old.Cond(), "*ast.GlobalIdent") && cast(old.Cond(), "*ast.GlobalIdent") != nil ==> cast(new, "*ir.TermCondBr").Cond == old(fgen.gen.new.globals[globalIdent(deref(cast(old.Cond(), "*ast.GlobalIdent")))])
+//@   ensures typeis(old.Cond(), "*ast.LocalIdent") && cast(old.Cond(), "*ast.LocalIdent") != nil && !old(mapdom(fgen.locals, localIdent(deref(cast(old.Cond(), "*ast.LocalIdent"))))) ==> result != nil
+//@   ensures typeis(old.Cond(), "*ast.GlobalIdent") && cast(old.Cond(), "*ast.GlobalIdent") != nil && !old(mapdom(fgen.gen.new.globals, globalIdent(deref(cast(old.Cond(), "*ast.GlobalIdent"))))) ==> result != nil
+//@   ensures result == nil ==> boxed(cast(new, "*ir.TermCondBr").TargetTrue) == old(fgen.locals[localIdent(old.TargetTrue().Name())])
+//@   ensures !old(mapdom(fgen.locals, localIdent(old.TargetTrue().Name()))) ==> result != nil
+//@   ensures result == nil ==> boxed(cast(new, "*ir.TermCondBr").TargetFalse) == old(fgen.locals[localIdent(old.TargetFalse().Name())])
+//@   ensures !old(mapdom(fgen.locals, localIdent(old.TargetFalse().Name()))) ==> result != nil
+//@ func (*funcGen).irSwitchTerm
+//@   props C04 C05
+//@   partial
+//@   requires fgen != nil && fgen.gen != nil && fgen.f != nil && fgen.f.GlobalID >= 0 && old != nil && typeis(new, "*ir.TermSwitch") && cast(new, "*ir.TermSwitch") != nil
+//@   assigns anything
+//@   keeps ir.TermSwitch.X, ir.TermSwitch.TargetDefault, funcGen.locals, mapof(funcGen.locals), funcGen.gen, funcGen.f, generator.new, newIndex.globals, mapof(newIndex.globals), ir.GlobalIdent.GlobalID
+//@   ensures result == nil && typeis(old.X().Val(), "*ast.LocalIdent") && cast(old.X().Val(), "*ast.LocalIdent") != nil ==> cast(new, "*ir.TermSwitch").X == old(fgen.locals[localIdent(deref(cast(old.X().Val(), "*ast.LocalIdent")))])
+//@   ensures result == nil && typeis(old.X().Val(), "*ast.GlobalIdent") && cast(old.X().Val(), "*ast.GlobalIdent") != nil ==> cast(new, "*ir.TermSwitch").X == old(fgen.gen.new.globals[globalIdent(deref(cast(old.X().Val(), "*ast.GlobalIdent")))])
+//@   ensures typeis(old.X().Val(), "*ast.LocalIdent") && cast(old.X().Val(), "*ast.LocalIdent") != nil && !old(mapdom(fgen.locals, localIdent(deref(cast(old.X().Val(), "*ast.LocalIdent"))))) ==> result != nil
+//@   ensures typeis(old.X().Val(), "*ast.GlobalIdent") && cast(old.X().Val(), "*ast.GlobalIdent") != nil && !old(mapdom(fgen.gen.new.globals, globalIdent(deref(cast(old.X().Val(), "*ast.GlobalIdent"))))) ==> result != nil
+//@   ensures result == nil ==> boxed(cast(new, "*ir.TermSwitch").TargetDefault) == old(fgen.locals[localIdent(old.Default().Name())])
+//@   ensures !old(mapdom(fgen.locals, localIdent(old.Default().Name()))) ==> result != nil
+//@   loop 0: invariant true
+//@ func (*funcGen).irIndirectBrTerm
+//@   props C04 C05
+//@   partial
+//@   requires fgen != nil && fgen.gen != nil && fgen.f != nil && fgen.f.GlobalID >= 0 && old != nil && typeis(new, "*ir.TermIndirectBr") && cast(new, "*ir.TermIndirectBr") != nil
+//@   assigns anything
+//@   keeps ir.TermIndirectBr.Addr, funcGen.locals, mapof(funcGen.locals), funcGen.gen, funcGen.f, generator.new, newIndex.globals, mapof(newIndex.globals), ir.GlobalIdent.GlobalID
+//@   ensures result == nil && typeis(old.Addr().Val(), "*ast.LocalIdent") && cast(old.Addr().Val(), "*ast.LocalIdent") != nil ==> cast(new, "*ir.TermIndirectBr").Addr == old(fgen.locals[localIdent(deref(cast(old.Addr().Val(), "*ast.LocalIdent")))])
+//@   ensures result == nil && typeis(old.Addr().Val(), "*ast.GlobalIdent") && cast(old.Addr().Val(), "*ast.GlobalIdent") != nil ==> cast(new, "*ir.TermIndirectBr").Addr == old(fgen.gen.new.globals[globalIdent(deref(cast(old.Addr().Val(), "*ast.GlobalIdent")))])
+//@   ensures typeis(old.Addr().Val(), "*ast.LocalIdent") && cast(old.Addr().Val(), "*ast.LocalIdent") != nil && !old(mapdom(fgen.locals, localIdent(deref(cast(old.Addr().Val(), "*ast.LocalIdent"))))) ==> result != nil
+//@   ensures typeis(old.Addr().Val(), "*ast.GlobalIdent") && cast(old.Addr().Val(), "*ast.GlobalIdent") != nil && !old(mapdom(fgen.gen.new.globals, globalIdent(deref(cast(old.Addr().Val(), "*ast.GlobalIdent"))))) ==> result != nil
+//@   # every listed target is looked up: one that is not in the index makes the translator return an error (C05)
+//@   ensures result == nil ==> forall(k, 0, len(old.ValidTargets()), old(mapdom(fgen.locals, localIdent(old.ValidTargets()[k].Name()))))
+//@   loop 0: invariant 0 <= range_i && range_i <= len(old.ValidTargets()) && forall(k, 0, range_i, old(mapdom(fgen.locals, localIdent(old.ValidTargets()[k].Name()))))
+//@ func (*funcGen).irInvokeTerm
+//@   props C04 C05
+//@   partial
+//@   requires fgen != nil && fgen.gen != nil && fgen.f != nil && fgen.f.GlobalID >= 0 && old != nil && typeis(new, "*ir.TermInvoke") && cast(new, "*ir.TermInvoke") != nil
+//@   assigns anything
+//@   keeps ir.TermInvoke.Invokee, ir.TermInvoke.NormalRetTarget, ir.TermInvoke.ExceptionRetTarget, funcGen.locals, mapof(funcGen.locals), funcGen.gen, funcGen.f, generator.new, newIndex.globals, mapof(newIndex.globals), ir.GlobalIdent.GlobalID
+//@   ensures result == nil && typeis(old.Invokee(), "*ast.LocalIdent") && cast(old.Invokee(), "*ast.LocalIdent") != nil ==> cast(new, "*ir.TermInvoke").Invokee == old(fgen.locals[localIdent(deref(cast(old.Invokee(), "*ast.LocalIdent")))])
+//@   ensures result == nil && typeis(old.Invokee(), "*ast.GlobalIdent") && cast(old.Invokee(), "*ast.GlobalIdent") != nil ==> cast(new, "*ir.TermInvoke").Invokee == old(fgen.gen.new.globals[globalIdent(deref(cast(old.Invokee(), "*ast.GlobalIdent")))])
+//@   ensures typeis(old.Invokee(), "*ast.LocalIdent") && cast(old.Invokee(), "*ast.LocalIdent") != nil && !old(mapdom(fgen.locals, localIdent(deref(cast(old.Invokee(), "*ast.LocalIdent"))))) ==> result != nil
+//@   ensures typeis(old.Invokee(), "*ast.GlobalIdent") && cast(old.Invokee(), "*ast.GlobalIdent") != nil && !old(mapdom(fgen.gen.new.globals, globalIdent(deref(cast(old.Invokee(), "*ast.GlobalIdent"))))) ==> result != nil
+//@   ensures result == nil ==> boxed(cast(new, "*ir.TermInvoke").NormalRetTarget) == old(fgen.locals[localIdent(old.NormalRetTarget().Name())])
+//@   ensures !old(mapdom(fgen.locals, localIdent(old.NormalRetTarget().Name()))) ==> result != nil
+//@   ensures result == nil ==> boxed(cast(new, "*ir.TermInvoke").ExceptionRetTarget) == old(fgen.locals[localIdent(old.ExceptionRetTarget().Name())])
+//@   ensures !old(mapdom(fgen.locals, localIdent(old.ExceptionRetTarget().Name()))) ==> result != nil
+//@   loop 0: invariant true
+//@   loop 1: invariant true
+//@   loop 2: invariant true
+//@   loop 3: invariant true
+//@   loop 4: invariant true
+//@ func (*funcGen).irCallBrTerm
+//@   props C04 C05
+//@   partial
+//@   requires fgen != nil && fgen.gen != nil && fgen.f != nil && fgen.f.GlobalID >= 0 && old != nil && typeis(new, "*ir.TermCallBr") && cast(new, "*ir.TermCallBr") != nil
+//@   assigns anything
+//@   keeps ir.TermCallBr.Callee, ir.TermCallBr.NormalRetTarget, funcGen.locals, mapof(funcGen.locals), funcGen.gen, funcGen.f, generator.new, newIndex.globals, mapof(newIndex.globals), ir.GlobalIdent.GlobalID
+//@   ensures result == nil && typeis(old.Callee(), "*ast.LocalIdent") && cast(old.Callee(), "*ast.LocalIdent") != nil ==> cast(new, "*ir.TermCallBr").Callee == old(fgen.locals[localIdent(deref(cast(old.Callee(), "*ast.LocalIdent")))])
+//@   ensures result == nil && typeis(old.Callee(), "*ast.GlobalIdent") && cast(old.Callee(), "*ast.GlobalIdent") != nil ==> cast(new, "*ir.TermCallBr").Callee == old(fgen.gen.new.globals[globalIdent(deref(cast(old.Callee(), "*ast.GlobalIdent")))])
+//@   ensures typeis(old.Callee(), "*ast.LocalIdent") && cast(old.Callee(), "*ast.LocalIdent") != nil && !old(mapdom(fgen.locals, localIdent(deref(cast(old.Callee(), "*ast.LocalIdent"))))) ==> result != nil
+//@   ensures typeis(old.Callee(), "*ast.GlobalIdent") && cast(old.Callee(), "*ast.GlobalIdent") != nil && !old(mapdom(fgen.gen.new.globals, globalIdent(deref(cast(old.Callee(), "*ast.GlobalIdent"))))) ==> result != nil
+//@   ensures result == nil ==> boxed(cast(new, "*ir.TermCallBr").NormalRetTarget) == old(fgen.locals[localIdent(old.NormalRetTarget().Name())])
+//@   ensures !old(mapdom(fgen.locals, localIdent(old.NormalRetTarget().Name()))) ==> result != nil
+//@   loop 0: invariant true
+//@   loop 1: invariant true
+//@   loop 2: invariant true
+//@   loop 3: invariant true
+//@   loop 4: invariant true
+//@   loop 5: invariant true
+//@ func (*funcGen).irResumeTerm
+//@   props C04 C05
+//@   partial
+//@   requires fgen != nil && fgen.gen != nil && fgen.f != nil && fgen.f.GlobalID >= 0 && old != nil && typeis(new, "*ir.TermResume") && cast(new, "*ir.TermResume") != nil
+//@   assigns anything
+//@   keeps ir.TermResume.X, funcGen.locals, mapof(funcGen.locals), funcGen.gen, funcGen.f, generator.new, newIndex.globals, mapof(newIndex.globals), ir.GlobalIdent.GlobalID
+//@   ensures result == nil && typeis(old.X().Val(), "*ast.LocalIdent") && cast(old.X().Val(), "*ast.LocalIdent") != nil ==> cast(new, "*ir.TermResume").X == old(fgen.locals[localIdent(deref(cast(old.X().Val(), "*ast.LocalIdent")))])
+//@   ensures result == nil && typeis(old.X().Val(), "*ast.GlobalIdent") && cast(old.X().Val(), "*ast.GlobalIdent") != nil ==> cast(new, "*ir.TermResume").X == old(fgen.gen.new.globals[globalIdent(deref(cast(old.X().Val(), "*ast.GlobalIdent")))])
+//@   ensures typeis(old.X().Val(), "*ast.LocalIdent") && cast(old.X().Val(), "*ast.LocalIdent") != nil && !old(mapdom(fgen.locals, localIdent(deref(cast(old.X().Val(), "*ast.LocalIdent"))))) ==> result != nil
+//@   ensures typeis(old.X().Val(), "*ast.GlobalIdent") && cast(old.X().Val(), "*ast.GlobalIdent") != nil && !old(mapdom(fgen.gen.new.globals, globalIdent(deref(cast(old.X().Val(), "*ast.GlobalIdent"))))) ==> result != nil
+//@ func (*funcGen).irCatchRetTerm
+//@   props C04 C05
+//@   partial
+//@   requires fgen != nil && fgen.gen != nil && fgen.f != nil && fgen.f.GlobalID >= 0 && old != nil && typeis(new, "*ir.TermCatchRet") && cast(new, "*ir.TermCatchRet") != nil
+//@   assigns anything
+//@   keeps ir.TermCatchRet.Target, funcGen.locals, mapof(funcGen.locals), funcGen.gen, funcGen.f, generator.new, newIndex.globals, mapof(newIndex.globals), ir.GlobalIdent.GlobalID
+//@   ensures result == nil ==> boxed(cast(new, "*ir.TermCatchRet").Target) == old(fgen.locals[localIdent(old.Target().Name())])
+//@   ensures !old(mapdom(fgen.locals, localIdent(old.Target().Name()))) ==> result != nil
+//@ # operands translated inside loops or conditionals are not covered (number of such call sites): irGetElementPtrInst (1), irCallInst (1), irIndirectBrTerm (1), irInvokeTerm (1), irCallBrTerm (2)
+//@ # no operand of the recognised shapes: irFenceInst, irPhiInst, irLandingPadInst, irCatchPadInst, irCleanupPadInst, irCatchSwitchTerm, irCleanupRetTerm, irUnreachableTerm
+//@ # ==== generated by /verif/tools/gen_asm_operand_contracts.py: end ====
 
 //@ # ---------------------------------------------------------------- C04 (one scaffold object per indexed global identifier) ---
 //@ # irType / irSigFromHeader / gepExprType translate types (out of the verified subset): assumed to write only
@@ -504,6 +1332,9 @@ package asm
 //@   assigns mapof(gen.new.attrGroupDefs)
 //@   ensures forall(k int64, mapdom(gen.old.attrGroupDefs, k) ==> mapdom(gen.new.attrGroupDefs, k) && mapvalk(gen.new.attrGroupDefs, k) != nil && mapvalk(gen.new.attrGroupDefs, k).ID == k, pattern(mapdom(gen.old.attrGroupDefs, k)))
 //@   loop 0: invariant forall(k int64, visited(k) ==> mapdom(gen.new.attrGroupDefs, k) && mapvalk(gen.new.attrGroupDefs, k) != nil && mapvalk(gen.new.attrGroupDefs, k).ID == k, pattern(mapdom(gen.old.attrGroupDefs, k)))
+
+
+
 
 //@ # ==== generated by /verif/tools/gen_asm_type_contracts.py: begin ====
 //@ # ---------------------------------------------------------------- C06 (parser-side result types) ---
@@ -701,11 +1532,25 @@ package asm
 //@   assigns nothing
 //@   ensures result1 == nil ==> result0 != nil && fresh(result0) && result0.LocalIdent == ident && result0.To != nil && teq(result0.To, tyOf(old.To()))
 //@   ensures result1 != nil ==> result0 == nil
+//@ func (*funcGen).newAllocaInst
+//@   props C06
+//@   requires fgen != nil && fgen.gen != nil && old != nil
+//@   requires true
+//@   assigns caches
+//@   ensures result1 == nil ==> result0 != nil && fresh(result0) && result0.LocalIdent == ident && result0.Typ != nil && teq(result0.Typ.ElemType, tyOf(old.ElemType())) && result0.Typ.AddrSpace == ite(res1(old.AddrSpace()), irAddrSpace(res0(old.AddrSpace())), 0)
+//@   ensures result1 != nil ==> result0 == nil
 //@ func (*funcGen).newLoadInst
 //@   props C06
 //@   requires fgen != nil && fgen.gen != nil && old != nil
 //@   assigns nothing
 //@   ensures result1 == nil ==> result0 != nil && fresh(result0) && result0.LocalIdent == ident && result0.ElemType != nil && teq(result0.ElemType, tyOf(old.ElemType()))
+//@   ensures result1 != nil ==> result0 == nil
+//@ func (*funcGen).newCmpXchgInst
+//@   props C06
+//@   requires fgen != nil && fgen.gen != nil && old != nil && types.I1 != nil && types.I1.BitSize == 1
+//@   requires true
+//@   assigns nothing
+//@   ensures result1 == nil ==> result0 != nil && fresh(result0) && result0.LocalIdent == ident && result0.Typ != nil && len(result0.Typ.TypeName) == 0 && !result0.Typ.Packed && !result0.Typ.Opaque && len(result0.Typ.Fields) == 2 && teq(result0.Typ.Fields[0], tyOf(old.New().Typ())) && isI1(result0.Typ.Fields[1])
 //@   ensures result1 != nil ==> result0 == nil
 //@ func (*funcGen).newAtomicRMWInst
 //@   props C06
@@ -727,6 +1572,13 @@ package asm
 //@   requires (typeis(tyOf(old.X().Typ()), "*types.FloatType") || isVec(tyOf(old.X().Typ())))
 //@   assigns nothing
 //@   ensures result1 == nil ==> result0 != nil && fresh(result0) && result0.LocalIdent == ident && cmpTy(result0.Typ, tyOf(old.X().Typ()))
+//@   ensures result1 != nil ==> result0 == nil
+//@ func (*funcGen).newPhiInst
+//@   props C06
+//@   requires fgen != nil && fgen.gen != nil && old != nil
+//@   requires true
+//@   assigns nothing
+//@   ensures result1 == nil ==> result0 != nil && fresh(result0) && result0.LocalIdent == ident && result0.Typ != nil && teq(result0.Typ, tyOf(old.Typ()))
 //@   ensures result1 != nil ==> result0 == nil
 //@ func (*funcGen).newSelectInst
 //@   props C06
@@ -772,6 +1624,20 @@ package asm
 //@   assigns nothing
 //@   ensures result1 == nil ==> result0 != nil && fresh(result0) && result0.LocalIdent == ident && teq(result0.Typ, velem(tyOf(old.X().Typ())))
 //@   ensures result1 != nil ==> result0 == nil
+//@ func (*funcGen).newInsertElementInst
+//@   props C06
+//@   requires fgen != nil && fgen.gen != nil && old != nil
+//@   requires isVec(tyOf(old.X().Typ()))
+//@   assigns nothing
+//@   ensures result1 == nil ==> result0 != nil && fresh(result0) && result0.LocalIdent == ident && result0.Typ != nil && teq(boxed(result0.Typ), tyOf(old.X().Typ()))
+//@   ensures result1 != nil ==> result0 == nil
+//@ func (*funcGen).newShuffleVectorInst
+//@   props C06
+//@   requires fgen != nil && fgen.gen != nil && old != nil
+//@   requires isVec(tyOf(old.X().Typ())) && isVec(tyOf(old.Mask().Typ()))
+//@   assigns nothing
+//@   ensures result1 == nil ==> result0 != nil && fresh(result0) && result0.LocalIdent == ident && result0.Typ != nil && result0.Typ.Len == vlen(tyOf(old.Mask().Typ())) && result0.Typ.Scalable == vscal(tyOf(old.Mask().Typ())) && teq(result0.Typ.ElemType, velem(tyOf(old.X().Typ())))
+//@   ensures result1 != nil ==> result0 == nil
 //@ func (*funcGen).newInvokeTerm
 //@   props C06 C08
 //@   requires fgen != nil && fgen.gen != nil && old != nil
@@ -786,7 +1652,7 @@ package asm
 //@   assigns nothing
 //@   ensures result1 == nil ==> result0 != nil && fresh(result0) && result0.LocalIdent == ident && ite(typeis(tyOf(old.Typ()), "*types.FuncType"), teq(result0.Typ, cast(tyOf(old.Typ()), "*types.FuncType").RetType), teq(result0.Typ, tyOf(old.Typ())))
 //@   ensures result1 != nil ==> result0 == nil
-//@ # not of the simple shape (covered by the parser/IR/rule stand-in only): newExtractValueInst, newAllocaInst, newCmpXchgInst, newGetElementPtrInst, newPhiInst, newInsertElementInst, newShuffleVectorInst
+//@ # not of the simple shape (covered by the parser/IR/rule stand-in only): newExtractValueInst, newGetElementPtrInst
 //@ # ==== generated by /verif/tools/gen_asm_type_contracts.py: end ====
 
 //@ # ---------------------------------------------------------------- C08 (parser-side numbering of globals) ---
